@@ -12,1049 +12,1256 @@ Definition show_fres (r : fres) : string :=
   end.
 Definition check (rs : list rune) : string := digest (show_fres (format_res rs)).
 Definition full (rs : list rune) : string := show_fres (format_res rs).
-Eval vm_compute in ("<<<M4488>>>" ++ check (runes_of_ascii "packet lengthOf {
-    @leftPad(' ')
-    // c
-    // packet A { u8 x, }
-    match len as As {
-        ""1"" : leftPad,
-        255 : Pad,
-        ""1"" : x,
-        4294967296 : u128,
-        // " ++ [27880; 37322]%N ++ runes_of_ascii "
-    },
-    @rightPad()
-    crc `line1
-    line2`,
-    @lengthOf(leftPad)
-    @calculatedFrom(""a\\"")
-    repeat char[] _x `a\`,
-    repeatCount asx,
-    repeat u {
-        match falsey as i8i8 {
-            //x
-            """ ++ [233]%N ++ runes_of_ascii "t" ++ [233]%N ++ runes_of_ascii """ : float,
-            [""\n""] : _x,
-            ""CRC32"" : roots,
-            7 : matchKey,
-            ""packet"" : Foo,
-            ""1"" : int,
-        },
-    },
-    i8 x `" ++ [233]%N ++ runes_of_ascii "`,
-    @tag(3)
-    f32a,
-    repeat lengthOf {
-        //x
-        int @lengthOf(calculatedFrom),
-        int64 falsey `doc`,
-    },// @lengthOf(
-    @calculatedFrom(""x y"")
-    //	t
-    match x_y_z as Z9_ {
-        1 : lengthOf,
-        255 : u128,
-        ""it's"" : Z9_,
-        // @lengthOf(
-        42 : len,
-    },
-    match calculatedFrom as crc {
-        [
-            0123456789, 255, 0, 1, 0123456789,
-            ""packet"", ""it's"", ""\n""
-        ] : calculatedFrom,
-        65535 : _x,
-        ""CRC32"" : tag,
-        [""`tick`""] : T,
-        [
-            0123456789, 4294967296, ""it's"", ""it's"", """ ++ [128512]%N ++ runes_of_ascii """,
-            ""`tick`""
-        ] : pack,
-    },
-}
-
-packet u8x {
-}
-
-root packet string_ {
-    @tag(3)
-    char[] crc,
-    @rightPad('\x00')
-    @leftPad(' ')
-    repeat char[42] Foo,
-    @calculatedFrom(""{,}"")
-    string stringy @lengthOf(chars),
-    @tag(1)
-    // " ++ [128512]%N ++ runes_of_ascii " emoji
-    zchar[007] charz `two words`,
-    repeat msg_type {
-        char uint8x `line1
-        line2`,
-        char[00] options1 @calculatedFrom(""" ++ [233]%N ++ runes_of_ascii "t" ++ [233]%N ++ runes_of_ascii """) `say ""hi""`,
-        matchKey @calculatedFrom(""1""),//
-    },
-    @tag(0123456789)
-    //	t
-    zchar[00] lengthOf,
-    @tag(3)
-    falsey As,
-}
-
-packet lengthOf {
-    chars {
-        Packet `tab	here`,
-        metadata,
-        repeat zchar,
-    },
-    match matchKey as roots {
-        ""x y"" : float,
-    },
-    @tag(1)
-    @tag(4294967296)
-    T {
-        int32 string_ `a\`,
-        i8 Pad @calculatedFrom(""a\""b"") `u8 x,`,
-        repeat char[] zchar `" ++ [233]%N ++ runes_of_ascii "`,
-        u8x {
-            repeat char[] x_y_z,
-        },
-    },
-    @rightPad('\x00')
-    repeat zchar[7] i8i8,
-}")).
-Eval vm_compute in ("<<<M956>>>" ++ check (runes_of_ascii "packet o { crc
-{ string leftPad
-@calculatedFrom(
-""\n"" ) /// triple
-`it's` , uint16
-x_y_z ,Logon,
-    string crc
-    @lengthOf( crc // a // b
-) ,} ,
-    @calculatedFrom( //x
-"""" ) u64
-matchKey `` , match  leftPad as len {00
-: //x
-charz, }
-    , @tag(
-007 ) @tag( 65535 )
-// a // b
-//	t
-repeat
+Eval vm_compute in ("<<<M487>>>" ++ check (runes_of_ascii "packet// " ++ [27880; 37322]%N ++ runes_of_ascii "
+len{ // a // b
+match // trailing space 
+Pad as x_y_z {""abc"" :	float, [ ""CRC32""
+    ,""CRC32""
+,0 , """ ++ [233]%N ++ runes_of_ascii "t" ++ [233]%N ++ runes_of_ascii """
+    , 255
 // packet A { u8 x, }
 //x
-stringy crc, @lengthOf(
-f32a)match tag  as leftPad{ ""1""
-:// " ++ [128512]%N ++ runes_of_ascii " emoji
-_x
+,
+255 , //x
+""`tick`"" , """ ++ [233]%N ++ runes_of_ascii "t" ++ [233]%N ++ runes_of_ascii """ ] : A	, 0123456789 : // trailing space 
+rootA ,	""a\""b""  :
+trueish
     ,
-// trailing space 
-//x
-} , roots { tag
-    , float64 body , // packet A { u8 x, }
-f64 As
-@lengthOf( // trailing space 
-tag)
+    }
+, repeat  int `{ , }` ,@lengthOf( trueish
+)	roots @lengthOf( body)	, float32 lengthOf// a // b
+,
+@rightPad  ( ' ')	repeatCount @lengthOf( calculatedFrom)
 `line1
-line2`,
-} , i64_ @calculatedFrom(
-    // trailing space 
-    ""x y"" // `tick` ""quote"" 'q'
-) , // " ++ [128512]%N ++ runes_of_ascii " emoji
-Packet @calculatedFrom(
-""\n""), @lengthOf(
-    BodyLength)
-char[ 42
-    // a // b
-    ]int @lengthOf( lengthOf ) `say ""hi""` ,
-} MetaData u{ f64 msg_type , uint8
-As `say ""hi""`, leftPad
-packetx
-, int32 As // " ++ [27880; 37322]%N ++ runes_of_ascii "
-`tab	here`,	i64 trueish	, uint16
-    calculatedFrom ,} packet
-f32a{ roots x_y_z , match body as  f32a
+line2` , uint64 string_  @calculatedFrom(""x y"" ) , // @lengthOf(
+Header _x`two words` ,
+i64 roots  `
+`
+    , } // a // b
+options {repeatCount = // " ++ [27880; 37322]%N ++ runes_of_ascii "
+false
 // @lengthOf(
 //	t
-{ [ 255, 10
-]
-// packet A { u8 x, }
-// `tick` ""quote"" 'q'
-: BodyLength , ""// no comment""
-    :
-packetx
-    , [ ""{,}"" , 65535 ,
-4294967296
-, 255
-, 7
-, //x
-""{,}"" // a // b
-,"""" ,0 ]
-: uint8x 255 : trueish , 7 : u128
-    ,0123456789 :
-    asx , } , // " ++ [128512]%N ++ runes_of_ascii " emoji
-match
-    //	t
-    A as  o {  0
-:
-    trueish // `tick` ""quote"" 'q'
-,""1""
-: i8i8 , 42 : Z9_ ,
-    }
-    , options1  , @tag(	0123456789 )repeat
-    /// triple
-    zchar { Foo
-    @lengthOf( float), /// triple
-}// c
-, match msg_type as u{// packet A { u8 x, }
-0123456789
-:
-    repeatCount,
-    } , @calculatedFrom( ""it's"" )i64_ @lengthOf( x_y_z  )
-, char[  00
-    ]Packet `" ++ [28040; 24687; 31867; 22411]%N ++ runes_of_ascii "` ,u16 // @lengthOf(
-lengthOf `a\` ,
-@calculatedFrom( ""\" ++ [233]%N ++ runes_of_ascii """) i64_ int , } packet uint8x{ string Header @lengthOf(matchKey )	`" ++ [28040; 24687; 31867; 22411]%N ++ runes_of_ascii "`
-,}
-    packet
-crc {
-// " ++ [128512]%N ++ runes_of_ascii " emoji
-// `tick` ""quote"" 'q'
-}
-")).
-Eval vm_compute in ("<<<M180>>>" ++ check (runes_of_ascii "// @lengthOf(
-MetaData
-zchar {string
-o
-`crlf
-line`	, char[]
-pack // c
-`crlf
-line` , char[]
-    // trailing space 
-    Foo,
-} options { stringy =
-""`tick`""
-    } packet leftPad {
-    packetx
-    @lengthOf(  roots), @lengthOf(int
-// a // b
-// " ++ [27880; 37322]%N ++ runes_of_ascii "
-) @calculatedFrom( ""a\""b"" )
-    @calculatedFrom( """ ++ [28040; 24687]%N ++ runes_of_ascii """ ) int32
-MetaDataX `" ++ [233]%N ++ runes_of_ascii "` // " ++ [27880; 37322]%N ++ runes_of_ascii "
-, u8 int// `tick` ""quote"" 'q'
-,
-@lengthOf( options1
-    ) repeat u8 BodyLength// `tick` ""quote"" 'q'
-,
-    @tag( 1
-    ) Logon
-    ,repeat int32 u8x
-`say ""hi""`, match int
-as
-charz	{ ""abc"" : roots } ,string_ {zchar	@lengthOf( calculatedFrom ) ``
-,
-} , } root packet lengthOf {
-@tag( 4294967296 )A // packet A { u8 x, }
-@lengthOf( i64_ )`doc` , body@lengthOf( lengthOf ) `it's`
-    // packet A { u8 x, }
-    , zchar[ 10 ] // " ++ [27880; 37322]%N ++ runes_of_ascii "
-i8i8, @calculatedFrom( """ ++ [233]%N ++ runes_of_ascii "t" ++ [233]%N ++ runes_of_ascii """	) i64 int `u8 x,`,	repeat trueish { string  options1 , zchar[
-    0123456789 ]_x
-`tab	here` ,
-Pad
-    { repeat string repeatCount , repeat string _x , Packet
-@lengthOf( roots ) `
-`
-    , string crc@calculatedFrom(""abc""),
-} , match i8i8 as  string_ {// c
-[ ""it's""
-]
-:
-options1 ,
-//
-// @lengthOf(
-""a	b"":
-string_ , [
-""a	b""
-, 00 ] //	t
-: // `tick` ""quote"" 'q'
-metadata  ,
-    0 :	o
-    ""\" ++ [233]%N ++ runes_of_ascii """
-    : Pad // packet A { u8 x, }
-,}
-,} , char[7 ]  i8i8 `tab	here`
-    , roots { repeat uint8 _x`tab	here`,	}  ,
-    repeat int64 f32a	,
-match asx
-as calculatedFrom { 65535 : asx
-// trailing space 
-//x
-, [ 1
-] :  uint8x,
-42 :x
-[ ""x y"" , ""1"",""`tick`"" , ""1"" ,
-""1""
-,	""a	b"" ]
-    :
-    MetaDataX }
-,} MetaData
-chars
-    { }")).
-Eval vm_compute in ("<<<M1402>>>" ++ check (runes_of_ascii "options {
-	StringPrefixLenType = u16;
-	ArrayPrefixLenType = u16;
-}
-
-packet SampleBinary {
-    uint16 MsgType `" ++ [28040; 24687; 31867; 22411]%N ++ runes_of_ascii "`,
-    u16 BodyLenght @lengthOf(Body) `" ++ [28040; 24687; 20307; 38271; 24230]%N ++ runes_of_ascii "`,
-    match MsgType as Body {
-        1 : Logon,
-        2 : Logout,
-        3 : Heartbeat,
-        4 : RiskControlRequest,
-        5 : RiskControlResponse,
-    },
-        @calculatedFrom(""CRC32"")
-    u32 Ckecksum `" ++ [26657; 39564; 21644]%N ++ runes_of_ascii "`,
-}
-
-packet Logon {
-     @leftPad('0')
-    char[10] UserName `" ++ [29992; 25143; 21517]%N ++ runes_of_ascii "`,
-    string Password `" ++ [23494; 30721]%N ++ runes_of_ascii "`,
-    uint64 ClientId `" ++ [23458; 25143; 31471]%N ++ runes_of_ascii "ID`,
-    u16 HeartbeatInterval `" ++ [24515; 36339; 38388; 38548]%N ++ runes_of_ascii "`,
-}
-
-packet Logout {
-      @rightPad('0')
-    char[10] UserName `" ++ [29992; 25143; 21517]%N ++ runes_of_ascii "`,
-    uint64 ClientId `" ++ [23458; 25143; 31471]%N ++ runes_of_ascii "ID`,
-}
-
-packet Heartbeat {
-}
-
-packet RiskControlRequest {
-    string UniqueOrderId `" ++ [21807; 19968; 35746; 21333; 21495]%N ++ runes_of_ascii "`,
-    char[16] ClOrdID `" ++ [23458; 25143; 35746; 21333; 21495]%N ++ runes_of_ascii "`,
-    char[3] MarketID `" ++ [24066; 22330]%N ++ runes_of_ascii "id`,
-    char[12] SecurityID `" ++ [35777; 21048; 20195; 30721]%N ++ runes_of_ascii "`,
-    char Side `" ++ [20080; 21334; 26041; 21521]%N ++ runes_of_ascii "`,
-    char OrderType `" ++ [35746; 21333; 31867; 22411]%N ++ runes_of_ascii "`,
-    u64 Price `" ++ [20215; 26684]%N ++ runes_of_ascii "`,
-    u32 Qty `" ++ [25968; 37327]%N ++ runes_of_ascii "`,
-    repeat string ExtraInfo `" ++ [38468; 21152; 20449; 24687]%N ++ runes_of_ascii "`,
-    repeat SubOrder {
-    		char[16] ClOrdID `" ++ [23376; 35746; 21333; 21495]%N ++ runes_of_ascii "`,
-    		u64 Price `" ++ [23376; 35746; 21333; 20215; 26684]%N ++ runes_of_ascii "`,
-    		u32 Qty `" ++ [23376; 35746; 21333; 25968; 37327]%N ++ runes_of_ascii "`,
-    	},
-}
-
-packet RiskControlResponse {
-    string UniqueOrderId `" ++ [21807; 19968; 35746; 21333; 21495]%N ++ runes_of_ascii "`,
-    i32 Status `" ++ [29366; 24577]%N ++ runes_of_ascii "`,
-    string Msg `" ++ [32467; 26524; 20449; 24687]%N ++ runes_of_ascii "`,
-    repeat Detail,
-}
-
-packet Detail {
-    string RuleName `" ++ [35268; 21017; 21517; 31216]%N ++ runes_of_ascii "`,
-    u16 Code `" ++ [21407; 22240; 20195; 30721]%N ++ runes_of_ascii "`,
-}")).
-Eval vm_compute in ("<<<M873>>>" ++ check (runes_of_ascii "packet i8i8  {
-@lengthOf( body )
-// trailing space 
-// " ++ [128512]%N ++ runes_of_ascii " emoji
-@lengthOf(  T
-    )calculatedFrom @calculatedFrom( """" ) , uint32 x`crlf
-line`
-    , uint64 string_ `{ , }` ,i64 _x // `tick` ""quote"" 'q'
-@calculatedFrom(""a	b""
-    )
-`doc` , @lengthOf( len )
-asx `doc`,charz `two words`,
-}  packet	u { @rightPad (	) repeat u128 u8x
-    , // trailing space 
-float64 stringy @calculatedFrom(
-    """ ++ [128512]%N ++ runes_of_ascii """)`crlf
-line` ,
-@rightPad( ) @tag(10 ) repeat
-    options1 `crlf
-line`, zchar[ 0 ] i8i8 , int16 // " ++ [128512]%N ++ runes_of_ascii " emoji
-matchKey@calculatedFrom(""CRC32"" )
-,}packet string_	{ zchar
-    // @lengthOf(
-    @calculatedFrom( ""packet"" ), repeat
-asx chars `tab	here` , }packet falsey { body
-BodyLength`two words`
-// a // b
-// trailing space 
-,
-match Z9_	as lengthOf{
-4294967296 : roots // " ++ [27880; 37322]%N ++ runes_of_ascii "
-} , char[	3
-    // @lengthOf(
-    ]asx `crlf
-line` , }root packet float	{
-repeat  i8i8 , @lengthOf(options1 ) roots
-roots  ,
-repeat zchar[ 1 ]
-    /// triple
-    pack , i64_ , falsey`` , match options1 as
-    // @lengthOf(
-    x_y_z { 0// packet A { u8 x, }
-: int , } ,	zchar[ 007 ] A@calculatedFrom( ""a	b""	)
-, trueish {repeat char[]i8i8 `doc` , }  , i8i8 `
-`
-    //
-    , uint8 roots `two words`// c
-,} 	 ")).
-Eval vm_compute in ("<<<M3955>>>" ++ check (runes_of_ascii "root
-packet MetaDataX {  } options 
-{ matchKey = ""abc""
-
-    ; i64_= 	 // a // b
-	7
-    ;
-    len
-    =
-1 x_y_z=	//x
-	'0'
-;
-}
-options{
-A = 7
-
-len  
-      // a // b
-    //x
-  = zchar[
-
-    4294967296	]  ;
-    o = string
-; int
-
-    = false
-
-f32a = 	 // trailing space 
-""CRC32"" ; }
-root
-packet	crc 
-	    // " ++ [27880; 37322]%N ++ runes_of_ascii "
-  {
-char[]	string_
-, match  i8i8 	 // c
-	as 
-tag  { //x
-3
-:
-
-    packetx }
-
-,
-@rightPad
-
-(' ' ) 
-repeat _x 
-        // packet A { u8 x, }
-//x
-    	{
-	a1  trueish
-    `// not a comment`
-	,
-
-    }, int16	// packet A { u8 x, }
-Z9_ ,  @lengthOf(uint8x 
-      // @lengthOf(
-	)
-	// `tick` ""quote"" 'q'
-	// `tick` ""quote"" 'q'
-      zchar[ 
-        // " ++ [128512]%N ++ runes_of_ascii " emoji
-  4294967296
-]	A
-
-@lengthOf(
-    i64_
-	) 	 //	t
-    `two words`
-,  repeat // " ++ [27880; 37322]%N ++ runes_of_ascii "
-	uint64 metadata ,
-
-    @calculatedFrom( ""packet""
-
-    )
-	string
-    //x
-	//	t
-  x `it's` ,match
-
-T  as  asx
-
-// " ++ [27880; 37322]%N ++ runes_of_ascii "
-//	t
-      {
-    ""abc"" :
-A 
-,
-	""it's""
-    :  Logon
-
-,
-}
-
-, 	 // packet A { u8 x, }
-  @calculatedFrom(
-
-//
-    // a // b
-
-	""\n"" ) string
-	_x
-
-,uint64 zchar
-    @lengthOf( 
-lengthOf),  }
-
-    packet
-
-    uint8x
-	{  }// a // b
- 
-")).
-Eval vm_compute in ("<<<M1311>>>" ++ check (runes_of_ascii "root packet body{
-    // `tick` ""quote"" 'q'
-    @tag(
-    10
-)repeat // trailing space 
-len { // c
-repeat
-    i32
-BodyLength ,	zchar[ 0123456789
-    ]trueish@lengthOf(tag )/// triple
-, }
-, u64 rootA ,
-@tag( 0123456789 //
-)
-    char[ 1
-] i64_
-`
-` ,@tag(//	t
-0123456789)repeat
-    char[]_x
-    ,
-    @tag(
-7 ) zchar[// packet A { u8 x, }
-0 ] calculatedFrom
-    @lengthOf(repeatCount ) , match i64_
-// a // b
-//
-as Packet { 3 : charz,[
-    ""a\\""] : options1, [
-""`tick`"" ,  0123456789 , 4294967296 ,  ""a	b"", 0123456789  ,""x y"" , """ ++ [128512]%N ++ runes_of_ascii """ ,""x y""] :
-    _x	, ""a\""b""  :
-    pack , ""it's""	:
-crc,} , }
-MetaData i8i8 {
-f32 u ,} packet A{ zchar[42
-    ] Pad ,
-    u128 , @calculatedFrom( ""x y"") repeat // `tick` ""quote"" 'q'
-u16 u ,
-    char[00 ]/// triple
-u128  , //	t
-repeat char[] u8x `doc` , }packet _x
-    { @lengthOf( rootA ) @tag( 3 )uint32	msg_type ,	options1
-    u128 ,char[] Pad
-, @tag(
-007 )  f32a @lengthOf(lengthOf ) `// not a comment` , }
-packet // @lengthOf(
-metadata
-    { @leftPad ( '0' ) @tag(0123456789 ) @rightPad (
-    ) f32a,
-    } 	 ")).
-Eval vm_compute in ("<<<M3209>>>" ++ check (runes_of_ascii "// top
-root
-    // c0
-packet
-    // c1
-msg_type
-    // c2
+; MetaDataX = int16 }root packet As// packet A { u8 x, }
 {
-    // c3
-i64
-    // c4
-options1
-    // c5
-,
-    // c6
-@lengthOf(
-    // c7
-f32a
-    // c8
-)
-    // c9
-repeat
-    // c10
-uint16
-    // c11
-Foo
-    // c12
-,
-    // c13
-@calculatedFrom(
-    // c14
-""x y""
-    // c15
-)
-    // c16
-repeat
-    // c17
-int64
-    // c18
-pack
-    // c19
-,
-    // c20
-@leftPad
-    // c21
+    @rightPad // trailing space 
 (
-    // c22
-' '
-    // c23
-)
-    // c24
-uint8
-    // c25
-Foo
-    // c26
-,
-    // c27
-}
-    // c28
-packet
-    // c29
-rootA
-    // c30
-{
-    // c31
-f32a
-    // c32
-x
-    // c33
-`two words`
-    // c34
-,
-    // c35
-char
-    // c36
-asx
-    // c37
-@lengthOf(
-    // c38
-falsey
-    // c39
-)
-    // c40
-`u8 x,`
-    // c41
-,
-    // c42
-@lengthOf(
-    // c43
-i64_
-    // c44
-)
-    // c45
-uint16
-    // c46
-chars
-    // c47
-,
-    // c48
-@tag(
-    // c49
-0
-    // c50
-)
-    // c51
-string
-    // c52
-_x
-    // c53
-@calculatedFrom(
-    // c54
-""abc""
-    // c55
-)
-    // c56
-`// not a comment`
-    // c57
-,
-    // c58
-}
-    // c59
-")).
-Eval vm_compute in ("<<<M3821>>>" ++ check (runes_of_ascii "MetaData T {
-    char[007] x `// not a comment`,
-    u8 x_y_z `// not a comment`,
-    As body,
-    T chars `tab	here`,
-}
-
-root packet len {
-    A,
-    @calculatedFrom(""" ++ [128512]%N ++ runes_of_ascii """)
-    crc,
-    x_y_z {
-        falsey {
-            Foo {
-                x @lengthOf(MetaDataX) `u8 x,`,
-                u64 As `// not a comment`,
-            },
-            u32 lengthOf `two words`,
-            char[42] x_y_z @lengthOf(Z9_),
-        },
-        uint64 asx `it's`,
-        pack packetx,
-    },
-    @rightPad()
-    match Foo as Packet {
-        3 : float,
-        ""x y"" : chars,
-        [7] : trueish,
-        ""`tick`"" : x,
-        ""\" ++ [233]%N ++ runes_of_ascii """ : Pad,
-        ""// no comment"" : MetaDataX,
-    },
-    x repeatCount `" ++ [28040; 24687; 31867; 22411]%N ++ runes_of_ascii "`,
-    repeat char[7] falsey,
-    @lengthOf(int)
-    @calculatedFrom("""")
-    @tag(255)
-    match u as chars {
-        0 : Pad,
-        0 : charz,
-        ""a\""b"" : matchKey,
-        42 : x,
-    },
-    @calculatedFrom(""abc"")
-    repeat int64 len,
-}")).
-Eval vm_compute in ("<<<M850>>>" ++ check (runes_of_ascii "packet Packet {
-match
-    a1
-    as calculatedFrom//
-{
-    // `tick` ""quote"" 'q'
-    00
-    : falsey""" ++ [233]%N ++ runes_of_ascii "t" ++ [233]%N ++ runes_of_ascii """ : string_ ,
-[	00 ] :o , ""it's"": u , //	t
-10 : BodyLength ""1"" : BodyLength
-, } ,}  root packet	calculatedFrom {  repeat
-    uint64
-    int `line1
-line2`
-,
-string rootA ``,
-    @lengthOf( i64_)leftPad@calculatedFrom( ""\" ++ [233]%N ++ runes_of_ascii """ )	`line1
-line2`  ,uint8 x_y_z // `tick` ""quote"" 'q'
-`" ++ [28040; 24687; 31867; 22411]%N ++ runes_of_ascii "`
-, } options {}
-MetaData crc
-{ pack	asx`" ++ [233]%N ++ runes_of_ascii "` , }packet
-    rootA { @lengthOf( x_y_z )repeat T Pad
-// a // b
-// " ++ [128512]%N ++ runes_of_ascii " emoji
-, string
-len ,
-match float as matchKey { ""a\""b"" : x
-    //	t
-    ,
-007 :
-calculatedFrom
-,
-    255 :// @lengthOf(
-crc , }
-,int32
-//x
-//
-float ,@leftPad ( ' ' ) @lengthOf(
-    stringy)  @calculatedFrom( ""`tick`"" )
-    repeat
-    float {
-zchar[ 00 ] crc @calculatedFrom(
-    ""1""
-    )`// not a comment` ,
-    //x
-    string stringy`doc`, } , i16
-asx `doc` ,
-    // `tick` ""quote"" 'q'
-    }
-")).
-Eval vm_compute in ("<<<M1381>>>" ++ check (runes_of_ascii "packet
-chars{ @lengthOf(
-zchar )@tag( 42) match	roots as As {
-255 : x
-    ,
-    0123456789
-    : charz
-, 3	:
-T}
-// @lengthOf(
-// @lengthOf(
-, match body as Logon
-    {
-    ""packet"" : metadata , },  match
-As
-as i64_ { 7
-:metadata ,00: i64_ , [ ""a\""b"", ""\n"" , """ ++ [28040; 24687]%N ++ runes_of_ascii """
-    ] // a // b
-:// c
-falsey  ""abc"" : i8i8 , 7	: u128  , } , //
-BodyLength  @lengthOf(//x
-stringy )
-`// not a comment`, repeat f64
-    // trailing space 
-    BodyLength,
-int64  Z9_
-    ,
-    @calculatedFrom( ""// no comment""
-    // `tick` ""quote"" 'q'
-    ) @leftPad( '0' )	@tag(	3 )repeat char[	007 ]	chars, f64 x_y_z , stringy
-`u8 x,` ,@lengthOf( // a // b
-i8i8) // trailing space 
-roots rootA
-, } options { matchKey =
-float32
-    ;Z9_ = u8 f32a= true } root packet u128 { @rightPad (
-'\x00' ) Pad falsey`// not a comment` , //x
-int32 Z9_ @lengthOf( falsey ) ,
-//
-// @lengthOf(
-}
-")).
-Eval vm_compute in ("<<<M688>>>" ++ check (runes_of_ascii "packet
-Header
-{
-    @lengthOf( o)
-zchar[
-255
-    ] pack	@lengthOf( len) `a\`
-, @calculatedFrom( """ ++ [128512]%N ++ runes_of_ascii """
-) repeat Foo {
-float @lengthOf(
-    asx ) // packet A { u8 x, }
-, repeat body ,repeat x{	As @lengthOf(
-// packet A { u8 x, }
-// a // b
-Foo	) // a // b
-`doc` ,	string uint8x
-// packet A { u8 x, }
-// packet A { u8 x, }
-@lengthOf(msg_type) , } ,
-    // `tick` ""quote"" 'q'
-    },@leftPad ('0'
-)
-    @rightPad
-    //x
-    (
-'0'
-    ) x@calculatedFrom(	""" ++ [233]%N ++ runes_of_ascii "t" ++ [233]%N ++ runes_of_ascii """ ) ,@tag( // " ++ [27880; 37322]%N ++ runes_of_ascii "
-00 ) msg_type
-    @calculatedFrom( """ ++ [128512]%N ++ runes_of_ascii """ ), @tag(65535 ) repeat
-// " ++ [128512]%N ++ runes_of_ascii " emoji
+'0' ) uint32 BodyLength `u8 x,` ,stringy
 //	t
-x_y_z ,@tag( 1 )
-// c
-// " ++ [27880; 37322]%N ++ runes_of_ascii "
-zchar[4294967296] matchKey
-    , packetx , repeat charz packetx
-    `line1
-line2`  ,
-int32 x  @calculatedFrom(
-""\n"") ,	} root
-    packet int { @leftPad(
-/// triple
-// trailing space 
-) char zchar	@lengthOf(Pad
-    )
-`// not a comment`
-,} //x")).
-Eval vm_compute in ("<<<M1039>>>" ++ check (runes_of_ascii "packet a1 { chars { len{ Logon len , string string_ , u8x @calculatedFrom(
-    ""a\\""
+//
+`crlf
+line` ,
+int64 body `a\`
+, uint32 u128
+,
+@tag(	255
+// packet A { u8 x, }
+// @lengthOf(
+) zchar[ 7 ]	pack `line1
+line2` ,
+@rightPad( '\x00' )
+    repeat MetaDataX { x_y_z
+    { repeat _x { zchar //
+rootA  `
+` ,
+    // " ++ [128512]%N ++ runes_of_ascii " emoji
+    }
+    /// triple
+    , repeat string_ {
 // a // b
-// c
-) ,  repeat
-    float{ body int `" ++ [233]%N ++ runes_of_ascii "`
-, }
-    ,	}, repeat As { repeat i64_
-    f32a `{ , }` , A@calculatedFrom( ""\" ++ [233]%N ++ runes_of_ascii """
-) , int64	float
-    //	t
-    ,
+// packet A { u8 x, }
+zchar[0123456789
+] lengthOf	,
     }
-,match x as chars {[
-    """ ++ [128512]%N ++ runes_of_ascii """
+    , u128
+    asx `
+` , match chars as i64_
+{ ""`tick`"" ://	t
+int ,
+[  ""a\\"" ,1 ]  :x 7 : x_y_z //x
+,""" ++ [233]%N ++ runes_of_ascii "t" ++ [233]%N ++ runes_of_ascii """ : string_, [ 42	,""1""
+    ,	""x y"" ,""`tick`""
+    ] : options1 ,}  ,} ,
+msg_type  @calculatedFrom( ""a\""b""  )// " ++ [128512]%N ++ runes_of_ascii " emoji
+,char[ 4294967296
+] asx `" ++ [28040; 24687; 31867; 22411]%N ++ runes_of_ascii "`//
+, match _x
+as i8i8 { [	""x y"" // @lengthOf(
+]
+    : charz , 4294967296
+    : x_y_z,} ,  }// " ++ [128512]%N ++ runes_of_ascii " emoji
+,@calculatedFrom( ""CRC32"" ) As
+_x , @rightPad ('\x00' ) //	t
+@tag(0123456789 ) @calculatedFrom( ""it's"")
+    zchar[3 ]
+f32a`doc` , } // @lengthOf(
+MetaData	u {rootA //
+len `
+`
+,
+}	packet Packet // trailing space 
+{ @lengthOf(	len
+)repeat
+    u64 body  ,
+    repeat
+    leftPad i64_ , // c
+@lengthOf( zchar ) i16 x
+,
+    // trailing space 
+    BodyLength // packet A { u8 x, }
+{ repeat packetx tag, }
+    //
     ,
-007	, ""x y"" ,
-00 , ""x y"",
-10 ] :  string_ 10 : float , 4294967296:	x_y_z , [ """ ++ [233]%N ++ runes_of_ascii "t" ++ [233]%N ++ runes_of_ascii """ //	t
-, 10 , 42  ,""" ++ [28040; 24687]%N ++ runes_of_ascii """ ,
-0123456789 ,	42
-    ,10]  : T 00
-: leftPad// trailing space 
-,  }, crc @lengthOf( u128
-// " ++ [128512]%N ++ runes_of_ascii " emoji
-// trailing space 
-) //x
-,  } ,
-    char[] packetx@calculatedFrom( ""abc"" )`line1
-line2`
-,	int32 repeatCount @lengthOf(
-Foo ) `it's` //	t
-, match Packet /// triple
-as string_  {
-42
-/// triple
-// trailing space 
-:f32a , 255 :
-    MetaDataX
-1: i8i8
-"""" : a1  ,//	t
-} , _x@lengthOf( chars) ,	}")).
-Eval vm_compute in ("<<<M3529>>>" ++ check (runes_of_ascii "
-options{
-StringPrefixLenType =
-u16 ; ArrayPrefixLenType
-= u32  ; FixedStringPadFromLeft
-    =false ; FixedStringPadChar
-= '0' 
-; }
-    packet	Logout{f64
-	f1,
-i16 Note 
-, @rightPad
-
-( '\x00'
-)  char[
-
-11 ] Flags,	}packet Cancel {
-	float64 msgKind 
-,
-    }
-packet Reject
-{
-    InQty43	{  float32
-    sym
-,
     char[
+    3 ]Logon
+    @calculatedFrom( ""{,}"" // @lengthOf(
+) , @tag(  0
+)match tag as int { 0123456789 :	float , }
+    , match trueish as// c
+Logon
+{ //	t
+""`tick`"" :As
+    ,}	, char[ 00]Header, }
+")).
+Eval vm_compute in ("<<<M4436>>>" ++ check (runes_of_ascii "
+packet
+rootA
 
-    10 ]
-Tail 
-, uint8
-venue
+    {
+    @rightPad (
+'0'
+)
+string
 
-, uint16 f1
+    leftPad@calculatedFrom(
 
-    , char[  9 ] 
-Acct, },
-	}packet Trade {
-char[] x ,
-zchar[	6  ]
-	Note	,repeat
-    Reject ,
-	} root packet
-Order
-{ Cancel,Logout
+""" ++ [233]%N ++ runes_of_ascii "t" ++ [233]%N ++ runes_of_ascii """
+)
+	`two words`
+	,	}
+	packet	// a // b
 
-    , u64
-    Acct	,
-    u32 OrderId
-    ,match OrderId
+  A {
+	@calculatedFrom( ""it's""  )char[]	// @lengthOf(
+	msg_type
 
-    as
-Body  {
+@lengthOf( asx )
 
-[
-    127  , 
-70
-    ]
+`u8 x,`
+    ,
+
+    charz
+o
+,@calculatedFrom(
+
+    ""`tick`"")
+
+    @lengthOf(  // @lengthOf(
+		crc
+// " ++ [27880; 37322]%N ++ runes_of_ascii "
+  // trailing space 
+  ) 
+    //
+  match// " ++ [128512]%N ++ runes_of_ascii " emoji
+falsey
+
+    as metadata
+    {
+    // @lengthOf(
+
+  [
+65535
+
+,
+    65535
+
+]:u8x
+
+,""\n""
+	    // @lengthOf(
+    	// @lengthOf(
+: int // " ++ [128512]%N ++ runes_of_ascii " emoji
+
+,
+    007 :
+
+MetaDataX
+
+,
+    ""it's""
+: f32a,
+	0
+
+    : i8i8,
+[	65535
+    ,
+	255
+
+]
+	:
+u8x , } , 
+} packet
+
+charz
+
+{
+
+string
+	MetaDataX 	 // a // b
+  , 
+    // packet A { u8 x, }
+
+  repeat
+
+    char[] 
+_x	,	@rightPad
+	( )
+
+match pack as
+    //	t
+	string_ {""a	b"" : trueish
+    ,
+	""it's""
+
+// trailing space 
+
+//
+    :  A 
+10:
+
+T
+
+0
+
+:  // trailing space 
+	msg_type	, [
+7
+, 1
+
+,	""1""
+	,// `tick` ""quote"" 'q'
+00 	 // " ++ [27880; 37322]%N ++ runes_of_ascii "
+		,
+	10
+, 
+4294967296  ,10	]
+:
+Pad
+, 
+} ,  // a // b
+    A {	repeat
+	u128  {char[
+00 ]
+	a1 `line1
+line2`
+	, //x
+uint8x  rootA
+	`say ""hi""` , match
+    uint8x
+	as i64_{	""" ++ [28040; 24687]%N ++ runes_of_ascii """ :	msg_type
+
+, ""\n""	:
+    i8i8 , }
+,	i64
+x_y_z	`{ , }` 
+,
+} 
+// a // b
+      // a // b
+      ,
+	match
+zchar  
+  //	t
+  	// c
+	as  Header
+{
+3 
+:
+pack
+,""x y"" 
+: packetx ,  
+      //x
+    	255
+	:  u8x,
+	""abc""
 
     :
-	Reject
+
+Z9_, ""x y"":msg_type [""a\\""
+, 10	// @lengthOf(
+  ]	// `tick` ""quote"" 'q'
+: o
+    }
+
+, char[ 
+
+// `tick` ""quote"" 'q'
+0
+	]
+
+    leftPad
+`{ , }` ,	string stringy @calculatedFrom( ""`tick`""  )
+
+`u8 x,`	,	}  , 
+repeat
+
+zchar[
+	00 ] // packet A { u8 x, }
+	Packet
+
+,
+repeat
+
+u16
+	tag	,
+	@tag(
+    65535  )repeat
+	uint64
+
+MetaDataX
+	, }
+    MetaData pack{ 
+} ")).
+Eval vm_compute in ("<<<M89>>>" ++ check (runes_of_ascii "packet
+x
+    // `tick` ""quote"" 'q'
+    { len// c
+{// " ++ [27880; 37322]%N ++ runes_of_ascii "
+repeat
+i32	crc `say ""hi""` , match
+    chars as Packet
+{ 0123456789//	t
+: Pad 0123456789 :
+falsey
+    // " ++ [27880; 37322]%N ++ runes_of_ascii "
+    [
+4294967296
+    , 3
+    ,
+4294967296 , 0, ""1"" ] :roots,
+""a\\""
+:
+_x 3
+    : packetx } , repeat string
+    stringy `tab	here`
+,  match roots as lengthOf{
+""abc"" //	t
+:
+packetx , } // packet A { u8 x, }
+, } ,@lengthOf( chars )match  rootA
+    // trailing space 
+    as roots{
+""\n"" //
+:
+    Packet ,} , // `tick` ""quote"" 'q'
+string As `" ++ [28040; 24687; 31867; 22411]%N ++ runes_of_ascii "` , @rightPad (
+'\x00' ) int64 trueish @lengthOf( lengthOf )  `" ++ [233]%N ++ runes_of_ascii "` , } packet	len {	} options
+    {a1
+    // packet A { u8 x, }
+    = false
+    // a // b
+    }packet Z9_{ repeat zchar[ 00
+]  options1
+    //x
+    ,	@lengthOf( falsey ) repeat//	t
+i8 options1 `two words`
+, @rightPad//
+() i8 msg_type, char[3]
+lengthOf `{ , }`	,  string _x,@leftPad (
+) // c
+uint16	chars,
+// @lengthOf(
+//
+@lengthOf(
+crc
+    )@leftPad
+    (
+    // " ++ [128512]%N ++ runes_of_ascii " emoji
+    '0' ) repeat
+stringy calculatedFrom , string
+// " ++ [27880; 37322]%N ++ runes_of_ascii "
+//
+int `line1
+line2`, @rightPad
+( ' '
+    ) match Foo as
+    rootA //x
+{ [ ""packet"", ""a\""b"", """ ++ [128512]%N ++ runes_of_ascii """
+    ,""""	,
+    42 ] : u
+// a // b
+// packet A { u8 x, }
+,
+0 // " ++ [27880; 37322]%N ++ runes_of_ascii "
+:	A
+    , // trailing space 
+00
+:
+asx
+//x
+// trailing space 
+0 :  x_y_z
+    ,
+""CRC32"" : i64_
+, 42 : x
+// c
+// " ++ [128512]%N ++ runes_of_ascii " emoji
+, } , roots{ repeat zchar[10 ] stringy `" ++ [28040; 24687; 31867; 22411]%N ++ runes_of_ascii "` ,	} , } MetaData
+    // `tick` ""quote"" 'q'
+    tag{ f32 tag
+    ``, }
+")).
+Eval vm_compute in ("<<<M3950>>>" ++ check (runes_of_ascii "
+packet 
+tag
+
+{ 
+zchar[	65535 ]T
+
+    ,match
+i64_  as
+
+chars
+{
+
+    007	:
+
+    asx , 
+[
+
+    ""a\""b""
+,
+
+""a\""b""
+,  7 	 // a // b
+,
+
+    0
+, 
+""\" ++ [233]%N ++ runes_of_ascii """,""abc""
+    ,
+""x y"" 	 // trailing space 
+	  ,
+    0
+] 
+:
+
+u8x 7
+: 	 // c
+  	leftPad 
+7
+
+:
+body
+,
+
+""`tick`""	:// `tick` ""quote"" 'q'
+	  lengthOf  ,
+
+}
+
+    , @leftPad
+    ( )
+@rightPad
+(
+	)
+
+repeat
+    //
+	i64_	charz	,	repeat//	t
+    charz  u8x
+
+, repeat	float32
+    uint8x ,
+	} packet
+falsey{ }
+packet 	 // trailing space 
+Z9_
+{ 
+repeat u{int32 i8i8 ,	// " ++ [128512]%N ++ runes_of_ascii " emoji
+repeat
+
+BodyLength
+
+    {
+
+    match
+
+string_ as charz	{
+
+    ""\" ++ [233]%N ++ runes_of_ascii """
+	//
+  /// triple
+  :
+    As } , //x
+i64_ @calculatedFrom(
+	""packet"")
+,
+	}
 
     , 
-177 : Trade
+    //x
+    } 
+,  asx{	//x
+    	char[ 4294967296
+	]
+pack ,// @lengthOf(
+	}
+,@rightPad
+(
+'0' 
+)  falsey
+repeatCount
+    // c
+    // " ++ [27880; 37322]%N ++ runes_of_ascii "
+	, 
+@tag(
 
-    ,	58  :
+    // packet A { u8 x, }
+  0 ) 
+uint16
+chars
 
-    Logout
-	, 75 :
-Cancel	,
+    `" ++ [233]%N ++ runes_of_ascii "` , 
+x	@lengthOf(asx 
+    /// triple
+  // a // b
+	)
 
-}	,	u32  Tail@calculatedFrom(
+`line1
+line2`  ,
 
-""CRC32""
+    repeat
+	options1 
+a1,
+	@tag( 
+        // @lengthOf(
+      42 
+    /// triple
+	// packet A { u8 x, }
+  ) 
+@leftPad
+    (  '\x00' )
+
+match T
+    as
+
+x
+	{ [
+
+""a\\""]
+	:
+
+falsey
+    }// `tick` ""quote"" 'q'
+	, x,
+	trueish
+
+    i8i8
+    ,
+    }MetaData
+	T
+{
+MetaDataX
+
+    i8i8`it's`  ,} // `tick` ""quote"" 'q'
+")).
+Eval vm_compute in ("<<<M4366>>>" ++ check (runes_of_ascii "packet Z9_ {
+    repeat charz {
+        match chars as T {
+            // trailing space 
+            ""// no comment"" : float,
+            42 : string_,
+        },// " ++ [128512]%N ++ runes_of_ascii " emoji
+    },
+    @calculatedFrom(""CRC32"")
+    trueish @lengthOf(As) `" ++ [28040; 24687; 31867; 22411]%N ++ runes_of_ascii "`,
+    @lengthOf(_x)
+    falsey @lengthOf(zchar) `two words`,
+    @lengthOf(x)
+    string chars @lengthOf(int),
+    f32 options1,
+    @lengthOf(Pad)
+    match len as leftPad {
+        4294967296 : rootA,
+        42 : Z9_,
+    },
+}
+
+options {
+    T = true
+}
+
+MetaData repeatCount {
+    char[] string_ `" ++ [233]%N ++ runes_of_ascii "`,
+    f64 Z9_,
+    f32 _x,
+}/// triple
+
+packet chars {
+    match trueish as asx {
+        0123456789 : chars,
+    },
+    @tag(10)
+    repeat rootA `" ++ [233]%N ++ runes_of_ascii "`,
+    zchar[255] MetaDataX `doc`,
+    u16 Header `" ++ [233]%N ++ runes_of_ascii "`,
+    @leftPad(' ')
+    match trueish as a1 {
+        """ ++ [28040; 24687]%N ++ runes_of_ascii """ : As,
+        1 : pack,
+        1 : repeatCount,
+        [7] : u,
+    },
+    @lengthOf(tag)
+    u128 {
+        int32 tag @lengthOf(u8x),
+    },// trailing space 
+    @lengthOf(u)
+    @calculatedFrom(""a	b"")
+    @tag(00)
+    // c
+    i64 calculatedFrom @lengthOf(calculatedFrom) `" ++ [28040; 24687; 31867; 22411]%N ++ runes_of_ascii "`,
+}
+
+packet pack {
+    @calculatedFrom(""\n"")
+    string i8i8 `line1
+        line2`,
+}")).
+Eval vm_compute in ("<<<M3834>>>" ++ check (runes_of_ascii "
+
+  packet  Logon {@leftPad
+    ( '0'
+    ) @calculatedFrom(	""CRC32""	) match  x_y_z
+as calculatedFrom{
+
+[
+// trailing space 
+  // " ++ [128512]%N ++ runes_of_ascii " emoji
+65535,
+10	] : 
+asx 0
+
+    :BodyLength ,
+
+} 
+      //
+	// a // b
+
+	,@lengthOf(
+    metadata
+)int16	leftPad,match
+
+charz as i8i8  {
+	[ 65535	// a // b
+	  ]  :	repeatCount	,
+
+    ""CRC32"": Packet 
+,
+""a\""b""
+    :Z9_ 
+,
+
+    00 
+:
+falsey ,
+7
+
+    :
+
+    falsey
+
+    ,	}	, // " ++ [27880; 37322]%N ++ runes_of_ascii "
+@lengthOf(  body	)
+i32
+i8i8  `two words` 
+,
+    @calculatedFrom( ""`tick`""  )
+body	{
+
+    zchar[0 
+] BodyLength
+
+    `doc`
+
+, u `
+` 
+,}
+	,  @tag( 0123456789
 
 )
-,
 
-    }
+@leftPad (  '\x00' )
+
+@calculatedFrom(""a	b""	)	match
+As
+	as x_y_z 
+{	""" ++ [128512]%N ++ runes_of_ascii """  :
+i64_
+,	0123456789
+:	Foo
+,65535  :	matchKey ,
+
+65535:
+lengthOf
+	4294967296  // a // b
+
+	: f32a
+, } 
+,
+zchar[0
+
+]
+
+string_ @lengthOf( packetx
+)
+`" ++ [233]%N ++ runes_of_ascii "`
+
+, @calculatedFrom(""x y""
+)
+    BodyLength	{ 
+char[	1
+
+    ] 
+int,
+f32a ,
+
+    repeat  Pad 
+tag  `say ""hi""`  , 
+} 
+,
+	//x
+  zchar[
+	    // `tick` ""quote"" 'q'
+
+0
+	]
+Foo
+	@calculatedFrom(
+""// no comment"" )
+, @tag(
+
+00 
+)
+	u16 roots  `it's`	, 
+} root
+
+    packet
+roots{  }
+
 ")).
-Eval vm_compute in ("<<<M280>>>" ++ check (runes_of_ascii "options{
-    metadata
-= '0' int = 007 ; zchar
+Eval vm_compute in ("<<<M729>>>" ++ check (runes_of_ascii "
+MetaData
+charz{
+zchar[  3 ]Z9_ ,u8 a1
+    ,
+repeatCount metadata ,
+}options
+// trailing space 
+// @lengthOf(
+{ u
+=zchar[ 0123456789 ]; } //
+options
+    //
+    { T = 1	;
+    }
+packet
+_x { a1 @lengthOf(	falsey  ) ,
+    @leftPad(
+// packet A { u8 x, }
+// trailing space 
+'\x00'
+) @leftPad ( '0' ) @leftPad //
+( '0' ) repeat f32
+Header
+    `{ , }` ,@tag(
+    3	) o { repeat
+    //
+    f32a {
+    repeat //	t
+string o , Pad
+@lengthOf(stringy	)`u8 x,`, repeat zchar
+A
+    ,	repeat i8i8 ,
+}
+,
+uint8x
+    @lengthOf(zchar  )`two words` , match asx	as repeatCount { 255 :
+    u128 , ""`tick`"" //	t
+:calculatedFrom""\" ++ [233]%N ++ runes_of_ascii """ :
+    zchar
+    , 1 :f32a,
+    4294967296:  u128 ,""// no comment""  :Pad,} ,} , @tag( 255
+) // c
+chars { As Z9_
+    `u8 x,`,}
+    ,  @leftPad	(
+'\x00' )match uint8x as uint8x {""a\""b"": // " ++ [27880; 37322]%N ++ runes_of_ascii "
+charz , } , len @lengthOf(	i8i8 ) ,}
+    options { a1 =
+//x
+// trailing space 
+1
+pack = // " ++ [27880; 37322]%N ++ runes_of_ascii "
+false /// triple
+; // trailing space 
+Z9_ =
 // " ++ [27880; 37322]%N ++ runes_of_ascii "
 // `tick` ""quote"" 'q'
-=
-'\x00' ;
-    }
-    packet charz {
-@leftPad
-    ( '0'
-    ) @tag(
-42
-    // " ++ [128512]%N ++ runes_of_ascii " emoji
-    ) @calculatedFrom(
-    // " ++ [27880; 37322]%N ++ runes_of_ascii "
-    ""a\""b"" )char[]
-    packetx
-    @calculatedFrom(""\" ++ [233]%N ++ runes_of_ascii """
-    )`
-`
-,	match charz as msg_type  {
-//
+' 'pack=
+// packet A { u8 x, }
 // trailing space 
-4294967296:
-o 0123456789: // packet A { u8 x, }
-trueish ,  ""// no comment"" : asx //x
-[ 65535 ,
-65535 ,
-    3,""a\""b""
-,	""a\\""	,""" ++ [28040; 24687]%N ++ runes_of_ascii """
-, 0123456789 ,
-    ""a	b"" ]
-: T
-,
-}
-, @rightPad (
-' '
-    )
-crc , repeat char[]
-    // packet A { u8 x, }
-    stringy  `a\` , }
-// " ++ [128512]%N ++ runes_of_ascii " emoji
-// " ++ [128512]%N ++ runes_of_ascii " emoji
-MetaData// c
-tag { uint64 metadata ,int64 trueish `{ , }`,
-uint32 a1 , f32 Packet `// not a comment` , }
+0123456789 }
 ")).
+Eval vm_compute in ("<<<M3518>>>" ++ check (runes_of_ascii "options {
+    StringPrefixLenType = u8;
+    ArrayPrefixLenType = u8;
+    FixedStringPadFromLeft = true;
+    FixedStringPadChar = ' ';
+}
+packet Logout {
+    repeat string Px,
+    repeat string seqNo,
+    InMsgkind64 {
+        uint16 OrderId,
+        char[] count,
+        repeat i32 venue,
+    },
+}
+packet Heartbeat {
+    float32 tag7,
+    repeat InPrice50 {
+        repeat char[5] lastPx,
+        InRef42 {
+            u8 pad0,
+        },
+        uint32 Acct,
+        repeat Logout,
+        repeat char[5] Qty,
+    },
+    repeat InSeqno30 {
+        repeat Logout,
+    },
+    @leftPad('0') char[12] Acct,
+    char[] Side2,
+    repeat string msgKind,
+}
+packet Ack {
+    Heartbeat,
+    char[8] seqNo,
+    float64 clOrdID,
+}
+packet Trade {
+    char[] OrderId,
+    f64 Side2,
+    zchar[8] f1,
+    string Qty,
+    float64 seqNo,
+    repeat Logout,
+}
+packet Order {
+    f32 OrderId,
+    repeat u8 x,
+    Ack,
+    zchar[7] Note,
+}
+root packet Logon {
+    @rightPad('\x00') char[9] f1,
+}
+")).
+Eval vm_compute in ("<<<M954>>>" ++ check (runes_of_ascii "
+packet
+    zchar{
+repeat
+    // trailing space 
+    trueish _x,
+    @calculatedFrom(
+    ""\n"" )uint16  stringy `// not a comment`
+    , @rightPad /// triple
+( ' ' )
+    body
+    { leftPad	i8i8 ,	lengthOf {
+// " ++ [128512]%N ++ runes_of_ascii " emoji
+// " ++ [27880; 37322]%N ++ runes_of_ascii "
+int64 asx `// not a comment` ,
+leftPad {packetx @lengthOf(
+MetaDataX
+)
+, } , i32
+// trailing space 
+//	t
+o ,}
+// c
+/// triple
+,
+    }, f32 Z9_ `crlf
+line` ,
+    @calculatedFrom( ""abc""
+)calculatedFrom charz,
+repeat	zchar
+//x
+// `tick` ""quote"" 'q'
+Z9_, match T as
+o{	00 :
+    calculatedFrom  ,
+0123456789 : charz
+,
+    ""\" ++ [233]%N ++ runes_of_ascii """ :
+    a1} , @lengthOf( A
+) repeat
+    len
+, }root
+packet Pad { }
+    options
+    { msg_type = ""\n"" // packet A { u8 x, }
+trueish
+    // trailing space 
+    =int8
+;
+// " ++ [128512]%N ++ runes_of_ascii " emoji
+// `tick` ""quote"" 'q'
+repeatCount = ' ' u128 =  ""\" ++ [233]%N ++ runes_of_ascii """ ;  charz =
+    char[
+    // " ++ [128512]%N ++ runes_of_ascii " emoji
+    007]	}	MetaData string_ {
+    i64
+    Foo
+//
+// packet A { u8 x, }
+`say ""hi""`
+    , chars calculatedFrom
+//x
+//x
+,	}")).
+Eval vm_compute in ("<<<M1219>>>" ++ check (runes_of_ascii "packet int// " ++ [128512]%N ++ runes_of_ascii " emoji
+{@tag( 7 ) BodyLength { // @lengthOf(
+float32 f32a	, char[ 255 ] u8x @lengthOf( Z9_)`line1
+line2` ,
+repeat char[
+65535
+    ]
+// `tick` ""quote"" 'q'
+// a // b
+tag `" ++ [233]%N ++ runes_of_ascii "` ,
+match Header//x
+as  int {""" ++ [128512]%N ++ runes_of_ascii """
+// trailing space 
+//	t
+://	t
+body, [
+""" ++ [233]%N ++ runes_of_ascii "t" ++ [233]%N ++ runes_of_ascii """  ,
+    """ ++ [128512]%N ++ runes_of_ascii """ , ""packet"", 00 ,4294967296, 255
+    ]: int	[ 0 ,""a	b"" ]
+: Z9_ , [
+65535// " ++ [128512]%N ++ runes_of_ascii " emoji
+] : tag
+,/// triple
+""" ++ [233]%N ++ runes_of_ascii "t" ++ [233]%N ++ runes_of_ascii """:
+    // `tick` ""quote"" 'q'
+    options1
+//
+//x
+}
+,} ,
+zchar[
+255 ] MetaDataX@lengthOf(Z9_  ) `crlf
+line`
+, stringy
+/// triple
+// @lengthOf(
+{ repeat	string A	, // packet A { u8 x, }
+crc{ zchar[ 1 ]
+    // c
+    uint8x,
+}
+, uint16 Packet @calculatedFrom(
+""a	b"" )
+    ,	len @calculatedFrom(
+    ""a	b""
+    )
+`two words` , } ,
+zchar[ 255] As ``
+,i16// `tick` ""quote"" 'q'
+calculatedFrom ,
+@tag( 42 // `tick` ""quote"" 'q'
+)
+repeat x_y_z `two words`
+    // " ++ [128512]%N ++ runes_of_ascii " emoji
+    , uint8 lengthOf , @tag(
+0 )
+u128, }
+")).
+Eval vm_compute in ("<<<M1394>>>" ++ check (runes_of_ascii "root packet
+    // c
+    stringy { match
+    repeatCount as matchKey { ""a\\""
+: // trailing space 
+roots  ,} ,i8 o
+`" ++ [233]%N ++ runes_of_ascii "`
+, pack `" ++ [28040; 24687; 31867; 22411]%N ++ runes_of_ascii "`, u16  o , @tag(	0123456789 )zchar[  42	]
+repeatCount
+@calculatedFrom(
+"""" ) ,
+@leftPad( ' ' ) //
+repeat Header
+    {
+match asx // " ++ [128512]%N ++ runes_of_ascii " emoji
+as falsey {
+""\n""
+: asx  , 0
+    : Z9_ ,
+    // packet A { u8 x, }
+    00
+: repeatCount ,
+7 // a // b
+: a1 /// triple
+,
+    255 :A	,}
+    ,match crc// @lengthOf(
+as Foo
+// trailing space 
+//	t
+{
+    7 :
+    // @lengthOf(
+    packetx ,4294967296: lengthOf ,1
+:
+    pack , [
+    007 ]: Z9_ ""\" ++ [233]%N ++ runes_of_ascii """	: trueish ,
+} ,  int64
+i64_
+    // a // b
+    @calculatedFrom( ""\" ++ [233]%N ++ runes_of_ascii """ ) , }// @lengthOf(
+, repeat
+int64
+Foo ,@tag( 0123456789
+) u16	u8x , char[3]
+charz
+    `" ++ [233]%N ++ runes_of_ascii "` ,} MetaData pack
+    { //
+string pack
+// a // b
+// c
+, f32a
+Packet ,
+i64 u128 ,uint16 i8i8 , } // " ++ [128512]%N ++ runes_of_ascii " emoji")).
+Eval vm_compute in ("<<<M846>>>" ++ check (runes_of_ascii "// " ++ [128512]%N ++ runes_of_ascii " emoji
+options
+{ }// a // b
+packet/// triple
+a1  {char[ 10]
+//	t
+// " ++ [128512]%N ++ runes_of_ascii " emoji
+msg_type @calculatedFrom(
+""packet"" )
+    `u8 x,`
+,	crc
+{ float x
+,repeat i32 MetaDataX,}
+    , @calculatedFrom(
+""// no comment"" )//x
+repeat float
+matchKey
+`" ++ [233]%N ++ runes_of_ascii "` ,// `tick` ""quote"" 'q'
+match	lengthOf
+    as asx { [
+    //x
+    1,
+    1
+    ]
+: x_y_z , }
+,
+    @lengthOf(
+tag )
+repeat f32 //x
+A `tab	here` , @calculatedFrom(	""x y"" ) match
+u128 as rootA { 3 : pack , [ ""CRC32"", ""1"" , ""CRC32"" , 7,
+""`tick`"" ,
+""a\\"" ,""{,}""
+, 65535
+] :	repeatCount ,
+3 : f32a
+,
+007 : falsey ""// no comment"" :Header 00 :Foo,}
+, repeat string falsey , @lengthOf( string_
+)// a // b
+stringy, @rightPad	( )@rightPad ( // c
+' '
+    ) @leftPad
+// `tick` ""quote"" 'q'
+// " ++ [128512]%N ++ runes_of_ascii " emoji
+(
+) repeatCount,	@rightPad ( ) // " ++ [27880; 37322]%N ++ runes_of_ascii "
+repeat trueish	,}
+// c
+")).
+Eval vm_compute in ("<<<M900>>>" ++ check (runes_of_ascii "// " ++ [128512]%N ++ runes_of_ascii " emoji
+MetaData int {	As
+options1 ,
+char[
+    // a // b
+    42]  a1, int32 Foo
+`// not a comment`, int32// trailing space 
+float
+    , zchar[4294967296] uint8x
+// c
+// `tick` ""quote"" 'q'
+`// not a comment` ,	char[] Pad ,  }  root packet
+MetaDataX { @tag( 1
+    ) u128 { repeatCount	Packet
+    , } , A
+    , @lengthOf(u128 ) @leftPad
+    ( )@leftPad ( '\x00' )repeat i16
+    uint8x `u8 x,` ,
+int16
+float @calculatedFrom( ""abc""
+) `" ++ [28040; 24687; 31867; 22411]%N ++ runes_of_ascii "`// packet A { u8 x, }
+, body @lengthOf( _x )  , @leftPad	( '0')
+    //x
+    match roots
+as Header // `tick` ""quote"" 'q'
+{""{,}""
+:Packet , 0123456789
+:
+pack  00 : matchKey[ """ ++ [28040; 24687]%N ++ runes_of_ascii """
+    ,
+4294967296  ] : string_
+    ,
+    } , }  packet
+    charz{// trailing space 
+char[ 00
+    ]u8x , i32 chars ,
+}
+packet matchKey
+    { }")).
+Eval vm_compute in ("<<<M3861>>>" ++ check (runes_of_ascii "options
+	{ StringPrefixLenType 
+= 
+u16 ;
+
+    ArrayPrefixLenType
+
+    =
+    u32
+
+    ;
+	FixedStringPadFromLeft
+	=
+false;
+FixedStringPadChar	=
+    '0' ;}
+	packet
+Logout
+
+{
+f64  f1
+	,
+
+i16 Note , @rightPad
+	(
+'\x00'
+)  char[11 ] 
+Flags , } packet Cancel{	float64 msgKind,	}
+
+packet
+
+Reject
+{
+	InQty43{ 
+float32  sym ,
+    char[  10]  Tail
+
+    ,uint8 venue
+,	uint16
+f1 
+, 
+char[ 9
+]Acct
+, } 
+, } packet
+Trade
+	{
+
+char[]x
+,zchar[
+6
+	]	Note
+	,  repeat
+	Reject , 
+}
+
+root
+    packet
+
+    Order
+{
+    Cancel
+
+,	Logout ,
+    u64 
+Acct ,
+u32	OrderId, match
+
+OrderId
+
+    as
+Body {
+    [
+127 ,70 ] : Reject ,  177
+: Trade
+,
+58 : Logout
+,
+75
+
+    :
+    Cancel
+, }
+,u32
+
+    Tail  @calculatedFrom( ""CRC32""
+
+)
+
+,}
+")).
+Eval vm_compute in ("<<<M3608>>>" ++ check (runes_of_ascii "packet Z9_ {
+    repeat options1 {
+        repeat i16 o `two words`,
+        match charz as o {
+            [4294967296, ""// no comment""] : u,
+        },
+        match float as tag {
+            [00] : leftPad,
+            [
+                """ ++ [233]%N ++ runes_of_ascii "t" ++ [233]%N ++ runes_of_ascii """, ""\n"", 0, ""CRC32"", 1,
+                """ ++ [28040; 24687]%N ++ runes_of_ascii """, 255, 1
+            ] : options1,
+            255 : x,
+            00 : x,
+        },
+        repeat string asx `u8 x,`,
+    },
+    // " ++ [27880; 37322]%N ++ runes_of_ascii "
+    // a // b
+    zchar[3] falsey,
+}
+
+packet u {
+    //x
+    // trailing space 
+    zchar[0] asx,
+    @tag(10)
+    @rightPad(' ')
+    @rightPad('\x00')
+    Logon @calculatedFrom(""" ++ [128512]%N ++ runes_of_ascii """),
+    repeat char[255] calculatedFrom,
+    uint16 lengthOf,
+}
+
+root packet pack {
+}")).
 Eval vm_compute in ("<<<M1134>>>" ++ check (runes_of_ascii "packet	MetaDataX
     { T@lengthOf(
 //x
@@ -1094,390 +1301,449 @@ as zchar
 ""a\\"" ] : string_ , [3  ]:
     As 10 : uint8x,	65535: matchKey, }
     , }")).
-Eval vm_compute in ("<<<M3959>>>" ++ check (runes_of_ascii "options {
-}
-
-root packet A {
-    @rightPad()
-    @lengthOf(u128)
-    @calculatedFrom(""\" ++ [233]%N ++ runes_of_ascii """)
-    repeat u {
-        string body,
-        zchar @lengthOf(roots),
-        // @lengthOf(
-        // @lengthOf(
-        uint64 Pad,// `tick` ""quote"" 'q'
-        repeat metadata,
-    },
-    @tag(3)
-    Pad @calculatedFrom(""a\""b"") `two words`,
-    @leftPad('\x00')
-    T x `crlf
-        line`,
-    match BodyLength as crc {
-        [007] : uint8x,
-        00 : u,
-        ""a\""b"" : tag,
-        00 : options1,
-        ""\" ++ [233]%N ++ runes_of_ascii """ : trueish,
-        [65535, 3, ""x y"", """"] : float,
-    },
-}
-
-options {
-    x_y_z = 42
-}
-
-options {
-    zchar = false;
-}")).
-Eval vm_compute in ("<<<M834>>>" ++ check (runes_of_ascii "  packet Pad
-{ @tag(	0123456789)	float64 metadata `a\`
-, @calculatedFrom( ""a\""b""
-)	@lengthOf( //	t
-matchKey )uint8
-leftPad `it's`, i32 chars `two words` , @leftPad ( ' ')@calculatedFrom(
-""{,}"" ) leftPad	`" ++ [233]%N ++ runes_of_ascii "` , char[
-00 ] options1 `" ++ [233]%N ++ runes_of_ascii "` ,
-    repeat repeatCount
-    { repeat zchar
-{ char[ 65535 ]
-    // a // b
-    lengthOf@lengthOf( As ) `{ , }`
-    ,}
-,
-As _x , a1 //
-``	,
-calculatedFrom `{ , }` ,
-    } ,@lengthOf(  calculatedFrom )match
-    o as  x_y_z{  00: A ,
-    42: lengthOf , [""packet"" ,
-    10 ] :charz , [""{,}""
-//
-// `tick` ""quote"" 'q'
-, 1
-]  : tag // trailing space 
-[""{,}""] :int
-, }  ,	}
-")).
-Eval vm_compute in ("<<<M4468>>>" ++ check (runes_of_ascii "  MetaData
-T
-{ 
-	    //
-  // @lengthOf(
-	  u64 BodyLength
-	`say ""hi""` ,
-    i16
-
-    a1 ,int64
-msg_type
-`// not a comment`
-
-,
-x_y_z	zchar, u64
-
-T , float32 
-calculatedFrom
-
-,
-	} 
-packet
-
-    Logon { 
-@lengthOf(
-    options1
-    ) 
-int64  x@lengthOf(
-
-Z9_)`{ , }`
-
-,  }
-
-    packet
-lengthOf {
-        // `tick` ""quote"" 'q'
-	@calculatedFrom(
-""`tick`""  )  A 	 // `tick` ""quote"" 'q'
-	`" ++ [233]%N ++ runes_of_ascii "`// `tick` ""quote"" 'q'
-    , falsey
-
-    lengthOf 
-,
-@lengthOf(
-x_y_z )@lengthOf(
-	options1  ) 
-char[
-    4294967296 ]body@calculatedFrom(  """ ++ [28040; 24687]%N ++ runes_of_ascii """
-
-    ) 
-    // c
-
-	,	}
-")).
-Eval vm_compute in ("<<<M1099>>>" ++ check (runes_of_ascii "packet
-    trueish {
-    repeat
-chars
-    ``
-,
-match
-    // trailing space 
-    u128
-as leftPad { """ ++ [233]%N ++ runes_of_ascii "t" ++ [233]%N ++ runes_of_ascii """ : msg_type , } ,	string metadata ,zchar[ 10 ] pack `a\`,u8x {match u128
-as
-    Pad
-{
-    [ ""\n"" , 0 ] : len }
-    // @lengthOf(
-    , // trailing space 
-char[] Logon	@lengthOf(  Foo ) ,	uint64 metadata ,}
-,
-    u16 repeatCount
-@lengthOf( T
-    // trailing space 
-    ) , @lengthOf(u128 )T
-    @lengthOf(
-    f32a ),int8// `tick` ""quote"" 'q'
-i64_ `" ++ [233]%N ++ runes_of_ascii "`, @lengthOf(uint8x ) uint8 charz @calculatedFrom( """"	) , rootA
-    tag
+Eval vm_compute in ("<<<M1261>>>" ++ check (runes_of_ascii "MetaData o  {
+    } packet leftPad{ charz
+{ match u as repeatCount{[
+    1]
+:	x_y_z , 00
+: matchKey// c
+[""\" ++ [233]%N ++ runes_of_ascii """ , 7 ,""abc"" ,""`tick`"" ]
+: MetaDataX
+    // packet A { u8 x, }
     ,
-}
-")).
-Eval vm_compute in ("<<<M795>>>" ++ check (runes_of_ascii "
-packet rootA { string calculatedFrom@lengthOf(
-matchKey )
-, }packet rootA
-    {
-// " ++ [27880; 37322]%N ++ runes_of_ascii "
-//
-repeat string
-string_ ,
-} packet	x_y_z{ repeat	string i64_
-    //x
-    `two words` ,@leftPad (
-// " ++ [27880; 37322]%N ++ runes_of_ascii "
-// " ++ [128512]%N ++ runes_of_ascii " emoji
-) repeat int64 Foo ,
-match chars
-as int {""" ++ [28040; 24687]%N ++ runes_of_ascii """
-: o
-    /// triple
-    """ ++ [233]%N ++ runes_of_ascii "t" ++ [233]%N ++ runes_of_ascii """: crc,
-4294967296 : repeatCount
-// a // b
-// @lengthOf(
-, [1 ]  : As,
-[ 255,""" ++ [128512]%N ++ runes_of_ascii """
-    //
-    , ""x y""	,
-    ""{,}"", 4294967296,
-"""" ,
-    ""a\""b"" ,
-00 ] : u128 , // " ++ [128512]%N ++ runes_of_ascii " emoji
-""\" ++ [233]%N ++ runes_of_ascii """ : lengthOf ,
-    } , int64 uint8x
-    // c
-    , }
-")).
-Eval vm_compute in ("<<<M1169>>>" ++ check (runes_of_ascii "root
-    packet metadata {
-repeat
-    zchar[ 255 ]	matchKey `line1
-line2` ,
-@tag( 0
-)
-    // " ++ [128512]%N ++ runes_of_ascii " emoji
-    match // packet A { u8 x, }
-A as msg_type{ ""packet"":len 255 : roots	""" ++ [233]%N ++ runes_of_ascii "t" ++ [233]%N ++ runes_of_ascii """ : leftPad, ""CRC32"": Z9_
-    , //	t
-} , @leftPad
-(' ' ) char[] Logon , //x
-char[3 ]T
-`{ , }`	, uint64 metadata @calculatedFrom( // `tick` ""quote"" 'q'
-""1"" ) , @rightPad	()
-match
-    u as len  {[ ""\" ++ [233]%N ++ runes_of_ascii """ ,
-    ""1"" ] : f32a
-    }, u128 falsey , @calculatedFrom(	""" ++ [28040; 24687]%N ++ runes_of_ascii """ )As
-    @lengthOf( falsey ) ,
-}")).
-Eval vm_compute in ("<<<M852>>>" ++ check (runes_of_ascii "packet charz	{ @lengthOf(
-x_y_z
-    )match
-msg_type as msg_type{ ""a	b"" :
-packetx ,}
-, repeat	zchar[255 ] // a // b
-i8i8 `tab	here` ,
-    char[	255] i8i8 @lengthOf(
-    i64_/// triple
-)// c
-, }
-root
-packet matchKey { zchar[3 ] body`crlf
-line` ,
-@calculatedFrom(
-    ""x y"" )
-char[	00 ]leftPad `u8 x,` ,} // packet A { u8 x, }
-packet u8x  { @tag(00 ) metadata
-    {
-    repeat lengthOf
-    {zchar[
-0 ] _x @calculatedFrom( ""it's""  ) `say ""hi""`
-, } , }	,
-}
-")).
-Eval vm_compute in ("<<<M726>>>" ++ check (runes_of_ascii "packet u
+    65535:
+    o , ""abc""
+: matchKey ,
+} , } ,
+    // trailing space 
+    len
+`say ""hi""` , // @lengthOf(
+@rightPad (
+    ' ' ) char[	00] Pad , }packet Pad{
+@leftPad ( // @lengthOf(
+'\x00' )u128@calculatedFrom( ""a\\"" ) , @rightPad	('\x00'
+    )@rightPad
+( )
+    @calculatedFrom( ""a\""b"" )
+    // trailing space 
+    Z9_ metadata``
+    , @calculatedFrom(
+""x y""  ) tag @lengthOf(matchKey) , repeat zchar //
 {
-    @calculatedFrom( """"
-)float64 i8i8
-, @tag(42
-)@lengthOf( Z9_ ) @tag(  00	) Logon  metadata , float64 packetx
-// trailing space 
-// a // b
-,// c
-char[]trueish@calculatedFrom(""// no comment"" )	`" ++ [28040; 24687; 31867; 22411]%N ++ runes_of_ascii "`	,leftPad
-    , repeat  i32 x ,@calculatedFrom(	""" ++ [233]%N ++ runes_of_ascii "t" ++ [233]%N ++ runes_of_ascii """ )u16
-    As,
-repeat
-    char[] Header , match
-T
-as falsey {
-10
-:
-    string_ }
-// " ++ [27880; 37322]%N ++ runes_of_ascii "
-//x
-, } packet A {zchar[ 42]
-rootA
-    ,f32	pack
-@lengthOf(
-    zchar)  , // @lengthOf(
-}
+    uint8x u, } ,
+    // `tick` ""quote"" 'q'
+    }")).
+Eval vm_compute in ("<<<M3561>>>" ++ check (runes_of_ascii "options { // c1a
+  // c1b
+LittleEndian // c2a
+  // c2b
+= // c3a
+  // c3b
+true // c4
+; } // c6
+packet Logon // c8a
+  // c8b
+{ u8 // c10
+x , string // c13
+user
+    // c14
+,
+    // c15
+} // c16
+packet // c17a
+  // c17b
+Logout // c18
+{ // c19a
+  // c19b
+u16 // c20
+reason , } // c23
+packet // c24a
+  // c24b
+Empty { // c26
+} root packet Frame // c30
+{ // c31
+u16
+    // c32
+MsgType , @lengthOf( // c35
+Body ) // c37a
+  // c37b
+u8 BodyLen // c39
+, // c40
+u8 // c41a
+  // c41b
+flags // c42a
+  // c42b
+, // c43
+Logon
+    // c44
+Body
+    // c45
+, u32 // c47
+trailer // c48a
+  // c48b
+,
+    // c49
+} // c50a
+  // c50b
 ")).
-Eval vm_compute in ("<<<M439>>>" ++ check (runes_of_ascii "MetaData
+Eval vm_compute in ("<<<M3876>>>" ++ check (runes_of_ascii "MetaData zchar {
+}
+
+packet Packet {
+    u16 x @calculatedFrom(""" ++ [28040; 24687]%N ++ runes_of_ascii """) ``,
+    // " ++ [128512]%N ++ runes_of_ascii " emoji
+    @tag(7)
+    @tag(00)
+    Packet u128,
+    @lengthOf(float)
+    match A as charz {
+        00 : x,
+        [0, 255, ""it's"", 10] : Packet,
+        ""a\\"" : metadata,
+        [""`tick`"", 10] : chars,
+        [""a\""b""] : trueish,
+    },
+    uint64 string_,
+    @rightPad(' ')
+    float64 stringy `line1
+    line2`,
+    @tag(00)
+    uint16 As,
+}//	t
+
+options {
+    Logon = false;
+    // a // b
+    body = f64;
+}
+
+MetaData asx {
+}
+
+packet leftPad {
+    float @lengthOf(A) `a\`,
+}
+// " ++ [27880; 37322]%N)).
+Eval vm_compute in ("<<<M3672>>>" ++ check (runes_of_ascii "
+root	/// triple
+    packet//	t
+  	options1
+{
+
+float64
+u128 
+`" ++ [28040; 24687; 31867; 22411]%N ++ runes_of_ascii "`	// a // b
+
+	,@tag( 
+0
+	) //	t
+  match 
+int as
+float {4294967296  //
+  : metadata
+,
+
+    ""a\\""
+
+    : x 	 // packet A { u8 x, }
+    ,
+3
+    :	u 
+  // packet A { u8 x, }
+	,
+    // c
+    	// " ++ [128512]%N ++ runes_of_ascii " emoji
+0
+:falsey
+
+    }	,
+}
+options 
+    // @lengthOf(
+
+//x
+
+{ As 
+    // " ++ [128512]%N ++ runes_of_ascii " emoji
+	//
+    =
+    // a // b
+// `tick` ""quote"" 'q'
+  	float64
+    ;
+        //	t
+
+	//	t
+Logon	=
+""// no comment""
+    ; float
+	=  char[255
+
+]
+	string_
+= 007
+	;
+
+    u
+=
+	'\x00'  }
+")).
+Eval vm_compute in ("<<<M549>>>" ++ check (runes_of_ascii "packet int	{ @lengthOf( body
+) @leftPad
+    // @lengthOf(
+    ( )@lengthOf( pack ) u32 o , int32
+// c
+// packet A { u8 x, }
+u8x
+    , @calculatedFrom(""a\\"" // @lengthOf(
+)x
+chars	,//	t
+@tag( 65535) charz
+{  msg_type u128 , } ,Pad charz ,repeat len { zchar[ 0
+] roots `doc`, char[ 7
+    ] o `a\` ,
+repeat int64 pack
+    ,
+} ,  @rightPad	( ' ' // c
+) repeat
+options1	{
+    /// triple
+    zchar[ 3 ] Foo ,
+char[
+    7 ]
+x_y_z
+    @calculatedFrom(
 /// triple
 //	t
-matchKey {
-    MetaDataX
-trueish `say ""hi""` , char[] stringy `u8 x,` ,
+""a\""b"" ) ,
+repeat
+packetx , }//x
+, }
+")).
+Eval vm_compute in ("<<<M3680>>>" ++ check (runes_of_ascii "packet i64_ {
 }
-    /// triple
-    packet
-zchar {
-u64 a1
-,
-@leftPad  (
-    )match zchar as MetaDataX//
+
+packet crc {
+}
+
+options {
+}
+
+root packet charz {
+}
+
+packet trueish {
+    repeat char[255] lengthOf `" ++ [28040; 24687; 31867; 22411]%N ++ runes_of_ascii "`,
+    zchar[00] x `it's`,/// triple
+    repeat char[] Packet `say ""hi""`,
+    @calculatedFrom(""x y"")
+    char[1] lengthOf,
+    lengthOf `crlf
+        line`,
+    match charz as MetaDataX {
+        ""a	b"" : uint8x,
+        ""\n"" : calculatedFrom,
+    },
+    @tag(10)
+    float64 i8i8 @calculatedFrom(""" ++ [128512]%N ++ runes_of_ascii """) `say ""hi""`,
+    @rightPad('\x00')
+    i32 Foo `it's`,
+}")).
+Eval vm_compute in ("<<<M179>>>" ++ check (runes_of_ascii "  packet
+    body
+//x
+/// triple
+{ } packet Foo {int @lengthOf( x
+    ) , float32 len
+    `" ++ [28040; 24687; 31867; 22411]%N ++ runes_of_ascii "`, repeat f32a Packet ,	i8 // @lengthOf(
+stringy
+/// triple
+// trailing space 
+@calculatedFrom(""// no comment"" )
+`line1
+line2`
+    ,
+@tag( 0
+    // a // b
+    ) match  u
+    as
+    falsey
+    //
+    { [ 10 , 3, ""`tick`"" , 42	, 3// `tick` ""quote"" 'q'
+]
+    : Pad  ,
+7 : repeatCount// c
+, 0 :
+    Foo}, }MetaData Packet { string// c
+u , }options { uint8x = true
+; }
+")).
+Eval vm_compute in ("<<<M1130>>>" ++ check (runes_of_ascii "packet
+matchKey
 {
-//
-// `tick` ""quote"" 'q'
-""a\\"" : x_y_z} , @leftPad ('\x00'
-)
-match lengthOf as _x
-    // " ++ [27880; 37322]%N ++ runes_of_ascii "
-    {
-7:  leftPad , } ,//
-@calculatedFrom(""" ++ [28040; 24687]%N ++ runes_of_ascii """ )	@lengthOf(
-crc
-)
+    repeat matchKey,	@rightPad(
+)uint64 i64_ @calculatedFrom(""1"" )`crlf
+line`
+// trailing space 
+//	t
+, repeat	crc crc, // c
+roots
+// " ++ [27880; 37322]%N ++ runes_of_ascii "
+// packet A { u8 x, }
+{ string lengthOf `doc` , }
+, i16	pack , Foo , u128 { repeat
+uint8 T ,} ,
+string	Packet ,  uint64
+f32a
+@calculatedFrom( ""\" ++ [233]%N ++ runes_of_ascii """ ) , repeat
+    T{
+u64 roots@calculatedFrom( ""CRC32"" ) `// not a comment` ,
+    int16 msg_type ,stringy trueish  , repeat
+    T
+float
+, } , }")).
+Eval vm_compute in ("<<<M369>>>" ++ check (runes_of_ascii "
+MetaData
+// packet A { u8 x, }
+// @lengthOf(
+calculatedFrom {  zchar[
+    3 ] u8x
+, i32 o
+,
+    zchar[42
+//x
+// @lengthOf(
+]
+leftPad ,roots u
 //x
 //
-match BodyLength as calculatedFrom  {
-255: x_y_z ""// no comment""
-:T }, }
-")).
-Eval vm_compute in ("<<<M599>>>" ++ check (runes_of_ascii "
-packet i64_ // `tick` ""quote"" 'q'
-{ uint8x @calculatedFrom(""abc"" // " ++ [27880; 37322]%N ++ runes_of_ascii "
-) , char stringy ,@lengthOf( i8i8
-) match BodyLength
-as o{""" ++ [233]%N ++ runes_of_ascii "t" ++ [233]%N ++ runes_of_ascii """ :	Z9_
-,
-    ""x y""
-    : stringy , } ,@rightPad
-    /// triple
-    ('0'  )
-repeat T
-    {  repeatCount
-    , uint16
-As @lengthOf( // `tick` ""quote"" 'q'
-Packet )
-    ,	repeat	len
-, }, @lengthOf( packetx )
-Pad , @calculatedFrom(""" ++ [28040; 24687]%N ++ runes_of_ascii """
-    ) // @lengthOf(
-o ,zchar[ 00 ] rootA
-,
-}
-")).
-Eval vm_compute in ("<<<M3500>>>" ++ check (runes_of_ascii "options
-
-{ 
-LittleEndian = 
-false  ;StringPrefixLenType
-=
-u32
-
-    ; ArrayPrefixLenType= u16	; }
-	packet
-Party { @leftPad(
-	'0' )char[ 12]
-    Ref
-,
-repeat	char[ 
-6
-
-    ] x
-	, 
-}
-	packet	Logon
-{
-
-uint32
-
-clOrdID
-, Party	, }	root packet  Ack{
-
-zchar[2 ]
-f1
-, u32 seqNo
-,
-	u32
-
-    Side2
-
+, }
+packet
+    trueish{ @leftPad
+    ( )asx
+    //	t
     @lengthOf(
-Body)
-
-,
-match	seqNo 
-as
-	Body{43  :Logon
-
-    ,
-	93:  Party, 
-}  ,
-
-}
-")).
-Eval vm_compute in ("<<<M768>>>" ++ check (runes_of_ascii "
-packet Pad
-{@lengthOf(
-x ) match Header as // c
-A
-// " ++ [27880; 37322]%N ++ runes_of_ascii "
-// @lengthOf(
-{  """ ++ [128512]%N ++ runes_of_ascii """
-    : // c
-x_y_z [""" ++ [233]%N ++ runes_of_ascii "t" ++ [233]%N ++ runes_of_ascii """ ]: body }// `tick` ""quote"" 'q'
-, @calculatedFrom( ""a\""b""	)float32 uint8x ,	int16 roots, @calculatedFrom( ""abc"" ) i8 len
+i8i8
+) ,
+    @rightPad ( '\x00' )tag
+@lengthOf( Packet ) , Pad
     // `tick` ""quote"" 'q'
-    @lengthOf(
-x_y_z ), }
-    packet chars
-    { string Packet `doc`	, rootA {
-    repeat o , }
-, pack stringy	`" ++ [28040; 24687; 31867; 22411]%N ++ runes_of_ascii "` , }")).
+    options1 `doc` ,	@lengthOf(
+Header) match Z9_
+// c
+/// triple
+as zchar
+{ 4294967296 : o ,
+    } ,  } /// triple")).
+Eval vm_compute in ("<<<M3287>>>" ++ check (runes_of_ascii "// top
+packet
+    // c0
+u128
+    // c1
+{
+    // c2
+@lengthOf(
+    // c3
+body
+    // c4
+)
+    // c5
+match
+    // c6
+x_y_z
+    // c7
+as
+    // c8
+u
+    // c9
+{
+    // c10
+""x y""
+    // c11
+:
+    // c12
+i8i8
+    // c13
+,
+    // c14
+}
+    // c15
+,
+    // c16
+@tag(
+    // c17
+255
+    // c18
+)
+    // c19
+char[]
+    // c20
+roots
+    // c21
+@lengthOf(
+    // c22
+int
+    // c23
+)
+    // c24
+,
+    // c25
+}
+    // c26
+")).
+Eval vm_compute in ("<<<M298>>>" ++ check (runes_of_ascii "// a // b
+packet int  { //	t
+pack
+    // trailing space 
+    @lengthOf(// " ++ [27880; 37322]%N ++ runes_of_ascii "
+leftPad
+// @lengthOf(
+// c
+),
+u128 MetaDataX,	char[] charz
+    // a // b
+    @calculatedFrom(
+""\" ++ [233]%N ++ runes_of_ascii """ ) ,calculatedFrom{
+float
+BodyLength,
+}
+, @calculatedFrom(
+""" ++ [233]%N ++ runes_of_ascii "t" ++ [233]%N ++ runes_of_ascii """
+    )  @lengthOf( MetaDataX) match Logon //
+as  i64_{  [0 ,255 , 10, 7
+    // `tick` ""quote"" 'q'
+    , 0123456789 ]
+    :  asx // " ++ [128512]%N ++ runes_of_ascii " emoji
+}
+,
+    }")).
+Eval vm_compute in ("<<<M1354>>>" ++ check (runes_of_ascii "root
+packet i8i8 {repeat
+x float
+, @rightPad // c
+( '\x00'
+)As {
+    matchKey `two words` , zchar[ 255// c
+]
+x
+`line1
+line2` ,} ,// c
+}packet metadata {
+    } packet
+    A{ char[
+65535]
+    crc , u64 trueish
+    // `tick` ""quote"" 'q'
+    @lengthOf( o
+)
+,@calculatedFrom( ""// no comment""
+) falsey
+@lengthOf(A  )
+,//x
+@calculatedFrom(
+""CRC32"" ) u8
+    matchKey`tab	here` ,}
+")).
 Eval vm_compute in ("<<<M505>>>" ++ check (runes_of_ascii "root packet len{
 @lengthOf( matchKey ) repeat	repeatCount { repeat falsey ,  float64 Z9_
     , repeat
@@ -1500,516 +1766,160 @@ uint8
 BodyLength , }
 // " ++ [128512]%N ++ runes_of_ascii " emoji
 ")).
-Eval vm_compute in ("<<<M1157>>>" ++ check (runes_of_ascii "MetaData
-rootA
-{ }
-// a // b
-// c
-root
-    packet i8i8 { roots	@lengthOf(
-    // trailing space 
-    metadata )
-`a\` , @leftPad( ) @calculatedFrom( """ ++ [233]%N ++ runes_of_ascii "t" ++ [233]%N ++ runes_of_ascii """ ) @rightPad (
-) repeat	Packet// " ++ [27880; 37322]%N ++ runes_of_ascii "
-, @lengthOf(
-falsey) f64 x
-    , len @calculatedFrom( ""// no comment"" ) ,	@leftPad (  )
-    Pad { int64
-    stringy // a // b
-``, i8 charz, Header x  , }	, }
-")).
-Eval vm_compute in ("<<<M4341>>>" ++ check (runes_of_ascii "  // " ++ [27880; 37322]%N ++ runes_of_ascii "
-	options	//x
-		{  msg_type 
-    //x
-
-  //	t
-
-  =
-    '0'} packet 
-_x
-	{  // `tick` ""quote"" 'q'
-  @tag(  00)
-@tag(1  ) 
-char[]
-    a1 ,
-    // packet A { u8 x, }
-	/// triple
-    }  packet float 
-        //	t
-// " ++ [128512]%N ++ runes_of_ascii " emoji
-{
-    } 
-    //	t
-    // packet A { u8 x, }
-	  MetaData  
-  // `tick` ""quote"" 'q'
-  Foo
-{
-    }
-")).
-Eval vm_compute in ("<<<M3634>>>" ++ check (runes_of_ascii "
-packet
-zchar 
-{stringy //
-
-  @lengthOf(
-MetaDataX 
-) 
-`it's`
-    ,
-
-@tag(1)
-
-match
-    Z9_
-as
-	calculatedFrom
-{
-
-    """ ++ [28040; 24687]%N ++ runes_of_ascii """
-:Header ,	0123456789 
-: asx
-    [ 
-255] //	t
-: 	 // " ++ [128512]%N ++ runes_of_ascii " emoji
-
-	rootA	""\n"":  zchar , }, repeat float64 rootA
-, char[]  repeatCount 
-,repeat
-int32
-metadata
-`" ++ [233]%N ++ runes_of_ascii "`,
-repeat  char[ 
-7	]
-u8x,
-
-}
-")).
-Eval vm_compute in ("<<<M4313>>>" ++ check (runes_of_ascii "root packet packetx {
-    char[65535] u,
-    @lengthOf(MetaDataX)
-    @lengthOf(rootA)
-    @lengthOf(u8x)
-    zchar[3] zchar `
-    `,
-    // packet A { u8 x, }
-    //	t
-    lengthOf len,
-    repeat A {
-        // c
-        lengthOf @calculatedFrom(""x y""),
-        zchar[007] zchar @lengthOf(float),
-    },
-}")).
-Eval vm_compute in ("<<<M1510>>>" ++ check (runes_of_ascii "root packet Foo // " ++ [128512]%N ++ runes_of_ascii " emoji
-{ } options {
-    // a // b
-    tag // `tick` ""quote"" 'q'
-= //	t
-""""
-    ; u8x = zchar[0  ] }
-MetaData
-    int {zchar[ zchar[ 10]
-lengthOf	`` , i64 u8x`// not a comment` ,MetaDataX pack// `tick` ""quote"" 'q'
-`crlf
-line`
-, Logon charz `crlf
-line`
-    ,
-    // a // b
-    }
-")).
-Eval vm_compute in ("<<<M1517>>>" ++ check (runes_of_ascii "root packet Foo // " ++ [128512]%N ++ runes_of_ascii " emoji
-{ } options {
-    // a // b
-    tag // `tick` ""quote"" 'q'
-= //	t
-""""
-    ; u8x = zchar[0  ] }
-MetaData
-    int {zchar[ int32]
-lengthOf	`` , i64 u8x`// not a comment` ,MetaDataX pack// `tick` ""quote"" 'q'
-`crlf
-line`
-, Logon charz `crlf
-line`
-    ,
-    // a // b
-    }
-")).
-Eval vm_compute in ("<<<M3290>>>" ++ check (runes_of_ascii "// top
-packet
-    // c0
-o
-    // c1
-{
-    // c2
-@tag(
-    // c3
-42
-    // c4
-)
-    // c5
+Eval vm_compute in ("<<<M3789>>>" ++ check (runes_of_ascii "packet 	 // a // b
+	  i64_
+	{
 repeat
-    // c6
-x
-    // c7
-{
-    // c8
-char[
-    // c9
-0123456789
-    // c10
-]
-    // c11
-i64_
-    // c12
-,
-    // c13
-}
-    // c14
-,
-    // c15
-}
-    // c16
-options
-    // c17
-{
-    // c18
-}
-    // c19
-")).
-Eval vm_compute in ("<<<M1491>>>" ++ check (runes_of_ascii "root packet Foo // " ++ [128512]%N ++ runes_of_ascii " emoji
-{ } options {
-    // a // b
-    tag // `tick` ""quote"" 'q'
-= //	t
-""""
-    ; u8x = zchar[0  ] MetaData
-}
-    int {zchar[ 10]
-lengthOf	`` , i64 u8x`// not a comment` ,MetaDataX pack// `tick` ""quote"" 'q'
-`crlf
-line`
-, Logon charz `crlf
-line`
-    ,
-    // a // b
-    }
-")).
-Eval vm_compute in ("<<<M1469>>>" ++ check (runes_of_ascii "root packet Foo // " ++ [128512]%N ++ runes_of_ascii " emoji
-{ } options {
-    // a // b
-    tag // `tick` ""quote"" 'q'
-= //	t
-""""
-    ; u8x  zchar[0  ] }
-MetaData
-    int {zchar[ 10]
-lengthOf	`` , i64 u8x`// not a comment` ,MetaDataX pack// `tick` ""quote"" 'q'
-`crlf
-line`
-, Logon charz `crlf
-line`
-    ,
-    // a // b
-    }
-")).
-Eval vm_compute in ("<<<M4400>>>" ++ check (runes_of_ascii "packet stringy {
-    string_,
-}
+	int64
+asx
 
-packet rootA {
-    f32 A @lengthOf(lengthOf),
-    @calculatedFrom(""" ++ [233]%N ++ runes_of_ascii "t" ++ [233]%N ++ runes_of_ascii """)
-    zchar[4294967296] float @lengthOf(Foo),
-    @rightPad('0')
-    // `tick` ""quote"" 'q'
-    // packet A { u8 x, }
-    string body `" ++ [233]%N ++ runes_of_ascii "`,
-    char[42] Logon @lengthOf(uint8x) `u8 x,`,
-}")).
-Eval vm_compute in ("<<<M887>>>" ++ check (runes_of_ascii "
-MetaData
-// " ++ [128512]%N ++ runes_of_ascii " emoji
-//
-i8i8
-{ int8 charz	`doc` ,}
-    packet Header
-    {  repeat
-    int32 lengthOf `line1
-line2` // trailing space 
-,
-}
-    options {float= char[] ;
-}packet i8i8 //
-{uint8	u128 @lengthOf(
-//	t
-//x
-repeatCount )`crlf
-line` ,} options {
-    Packet =
-char[ 007 ]}
-")).
-Eval vm_compute in ("<<<M3672>>>" ++ check (runes_of_ascii "packet  calculatedFrom {
-	@lengthOf(zchar )
-char[] // `tick` ""quote"" 'q'
-  chars	`line1
+`line1
 line2`
-, 
+,}	options { 
+    // trailing space 
+chars = 
+255
+
+    ;
+
+    tag = 
+// c
+  3;matchKey
+    =  0123456789 
+} MetaData
+packetx	{
+	charz BodyLength
+, 	 //x
+  MetaDataX _x 
+`two words`,	MetaDataX 
+BodyLength, 
+float32 f32a
+`line1
+line2`,zchar[
+0
+    ]
+
+    stringy,
+
+    }")).
+Eval vm_compute in ("<<<M659>>>" ++ check (runes_of_ascii "packet lengthOf { repeat options1
+A
+,repeatCount @calculatedFrom(
+    """ ++ [128512]%N ++ runes_of_ascii """ )`two words`,i64 _x `{ , }` ,
 string
+_x
+@lengthOf( Pad  ) , match
+body // " ++ [27880; 37322]%N ++ runes_of_ascii "
+as u128 {1 : f32a, } , @lengthOf( /// triple
+MetaDataX  )
+    float64 _x,} packet calculatedFrom {
+i16 rootA ,}
+//x
+// c
+MetaData
+repeatCount
+    {} options {o
+    = 1 }
+")).
+Eval vm_compute in ("<<<M3914>>>" ++ check (runes_of_ascii "  options	{
+	LittleEndian
+    =
+    true
+;
+ArrayPrefixLenType
+    =
 
-    Logon
+u64
+;FixedStringPadFromLeft
+    =
 
+false
+
+;  }
+    packet Quote { 
+}root packet	Order
+
+    { i64 Side2,
+
+    Quote  ,	u32
+Px	,	match 
+Px as
+Body{
+    [
+	119
+	,
+    147
+
+]
+    :	Quote 
+,	} 
+,u16	Flags 
 @calculatedFrom(
 
-    ""it's""
+    ""CR\
+C32"" ),
+	}
 
-)
-,
-matchKey `say ""hi""`, 
-@lengthOf( T
-    // c
-
-	)  x_y_z@calculatedFrom( 
-""it's""
-)
-    `// not a comment`
-, 
-}
 ")).
-Eval vm_compute in ("<<<M3495>>>" ++ check (runes_of_ascii "packet P1 {
-    u8 a,
-}
-packet P2 {
-    P1,
-}
-packet P3 {
-    P2,
-    P1,
-}
-packet P4 {
-    repeat P3,
-    P2,
-}
-root packet P5 {
-    P4,
-    P3,
-    P1,
-    u8 K,
-    match K as Body {
-        4 : P4,
-        3 : P3,
-        2 : P2,
-        1 : P1,
-    },
-}
-")).
-Eval vm_compute in ("<<<M3551>>>" ++ check (runes_of_ascii "options {
+Eval vm_compute in ("<<<M3557>>>" ++ check (runes_of_ascii "options {
     LittleEndian = true;
 }
 packet Logon {
     u8 x,
-    string user,
 }
 packet Logout {
     u16 reason,
 }
-packet Empty {
-}
 root packet Frame {
-    u16 MsgType,
-    @lengthOf(Body) u8 BodyLen,
-    u8 flags,
-    Logon Body,
-    u32 trailer,
+    i32 Kind,
+    i32 Kind2,
+    match Kind as Body {
+        1 : Logon,
+        [2, 3, 4] : Logout,
+        100 : Logon,
+    },
+    match Kind2 as Trailer {
+        0 : Logout,
+    },
 }
 ")).
-Eval vm_compute in ("<<<M4088>>>" ++ check (runes_of_ascii "MetaData i64_ {
-    char[255] tag,
-    uint32 Z9_,
-    T options1 `a\`,
-    options1 Pad,
-    f32 leftPad `line1
+Eval vm_compute in ("<<<M3630>>>" ++ check (runes_of_ascii "packet metadata {
+    char[0] Z9_ `line1
     line2`,
 }
 
-options {
-}
-
-root packet uint8x {
-    @lengthOf(float)
-    falsey int `
-    `,
-}
-
-MetaData A {
-    u8 Packet,
-}")).
-Eval vm_compute in ("<<<M4165>>>" ++ check (runes_of_ascii "options {
-    o = ""CRC32"";
-}
-
-options {
-    Header = u32;// packet A { u8 x, }
-    packetx = char[]
-    T = char[65535];
-    // packet A { u8 x, }
-    // a // b
-    u8x = ""// no comment"";
-    string_ = true;
-}
-
-root packet tag {
-}")).
-Eval vm_compute in ("<<<M2372>>>" ++ check (runes_of_ascii "MetaData Packet { }packet	asx  { @lengthOf( asx) falsey`crlf
-line`
-,
-    }
-    packet x	{uint32// @lengthOf(
-rootA	,u32 options1 `say ""hi""` , @tag( 7
-    )// packet A { u8 x, }
-msg_type @lengthOf(
-stringy	)	, @rightPad
-
-")).
-Eval vm_compute in ("<<<M2251>>>" ++ check (runes_of_ascii "MetaData Packet { }packet	asx  { @lengthOf( asx asx) falsey`crlf
-line`
-,
-    }
-    packet x	{uint32// @lengthOf(
-rootA	,u32 options1 `say ""hi""` , @tag( 7
-    )// packet A { u8 x, }
-msg_type @lengthOf(
-stringy	)	, }
-
-")).
-Eval vm_compute in ("<<<M313>>>" ++ check (runes_of_ascii "
-packet	stringy
-//	t
-// " ++ [128512]%N ++ runes_of_ascii " emoji
-{ match calculatedFrom // a // b
-as MetaDataX { [ ""a\\"", """ ++ [28040; 24687]%N ++ runes_of_ascii """,// `tick` ""quote"" 'q'
-""CRC32"" ,
-10 ]:x,
+root packet chars {
     /// triple
-    0
-:  falsey
-, 1 :u8x ,
-//x
-// c
-65535
-    :	Foo , }
-,
-    }")).
-Eval vm_compute in ("<<<M2277>>>" ++ check (runes_of_ascii "MetaData Packet { }packet	asx  { @lengthOf( asx) falsey`crlf
-line`
-,
-    packet
-    } x	{uint32// @lengthOf(
-rootA	,u32 options1 `say ""hi""` , @tag( 7
-    )// packet A { u8 x, }
-msg_type @lengthOf(
-stringy	)	, }
-
-")).
-Eval vm_compute in ("<<<M2305>>>" ++ check (runes_of_ascii "MetaData Packet { }packet	asx  { @lengthOf( asx) falsey`crlf
-line`
-,
-    }
-    packet x	{uint32// @lengthOf(
-rootA	u32 options1 `say ""hi""` , @tag( 7
-    )// packet A { u8 x, }
-msg_type @lengthOf(
-stringy	)	, }
-
-")).
-Eval vm_compute in ("<<<M2300>>>" ++ check (runes_of_ascii "MetaData Packet { }packet	asx  { @lengthOf( asx) falsey`crlf
-line`
-,
-    }
-    packet x	{uint32// @lengthOf(
-	,u32 options1 `say ""hi""` , @tag( 7
-    )// packet A { u8 x, }
-msg_type @lengthOf(
-stringy	)	, }
-
-")).
-Eval vm_compute in ("<<<M2353>>>" ++ check (runes_of_ascii "MetaData Packet { }packet	asx  { @lengthOf( asx) falsey`crlf
-line`
-,
-    }
-    packet x	{uint32// @lengthOf(
-rootA	,u32 options1 `say ""hi""` , @tag( 7
-    )// packet A { u8 x, }
-msg_type [
-stringy	)	, }
-
-")).
-Eval vm_compute in ("<<<M701>>>" ++ check (runes_of_ascii "// @lengthOf(
-MetaData pack { char[
-255
-    ]
-    options1
-,uint64
-    lengthOf,	int32 roots, }root packet Packet // @lengthOf(
-{// c
-@calculatedFrom( ""{,}"" ) string
-// " ++ [27880; 37322]%N ++ runes_of_ascii "
-// " ++ [128512]%N ++ runes_of_ascii " emoji
-zchar `" ++ [28040; 24687; 31867; 22411]%N ++ runes_of_ascii "`,	}")).
-Eval vm_compute in ("<<<M3764>>>" ++ check (runes_of_ascii "root packet Foo {
-    float32 Logon `doc`,
+    // @lengthOf(
+    As {
+        zchar[3] BodyLength @calculatedFrom(""it's"") `line1
+        line2`,
+    },
 }
 
-MetaData x_y_z {
-    Header Z9_ `line1
-    line2`,
-    o crc,
-    string Header,
-    _x packetx `say ""hi""`,
-}
-
-packet stringy {
-    uint8 i64_,
+packet o {
+    @rightPad('\x00')
+    string f32a @calculatedFrom(""it's"") `// not a comment`,
 }")).
-Eval vm_compute in ("<<<M1162>>>" ++ check (runes_of_ascii "options { A = false
-    ;Packet = false ; Packet =
-zchar[0123456789 ]
-; charz
-= true
-    ; } MetaData	float
-{ u8x
-    Header
-    `" ++ [28040; 24687; 31867; 22411]%N ++ runes_of_ascii "`	,}packet
-    Header {Pad @lengthOf(u8x ) ,  }")).
-Eval vm_compute in ("<<<M4356>>>" ++ check (runes_of_ascii "options {
-    f32a = ""packet""
-}
-
-MetaData float {
-    zchar[0] Z9_ `
-        `,
-    u64 roots,
-    uint64 zchar ``,
-    int32 trueish,
-    uint64 roots,
-}// `tick` ""quote"" 'q'")).
-Eval vm_compute in ("<<<M1140>>>" ++ check (runes_of_ascii "packet MetaDataX{repeat Z9_ Header , @lengthOf( rootA
-)  stringy
-`it's` ,
-@tag(65535
-    )
-repeat
-    Pad// packet A { u8 x, }
-x
-    `
-`//x
-, char[ 42 ] As `doc`
-,	}
+Eval vm_compute in ("<<<M1440>>>" ++ check (runes_of_ascii "root packet Foo // " ++ [128512]%N ++ runes_of_ascii " emoji
+{ } options { {
+    // a // b
+    tag // `tick` ""quote"" 'q'
+= //	t
+""""
+    ; u8x = zchar[0  ] }
+MetaData
+    int {zchar[ 10]
+lengthOf	`` , i64 u8x`// not a comment` ,MetaDataX pack// `tick` ""quote"" 'q'
+`crlf
+line`
+, Logon charz `crlf
+line`
+    ,
+    // a // b
+    }
 ")).
-Eval vm_compute in ("<<<M1538>>>" ++ check (runes_of_ascii "root packet Foo // " ++ [128512]%N ++ runes_of_ascii " emoji
+Eval vm_compute in ("<<<M1618>>>" ++ check (runes_of_ascii "root packet Foo // " ++ [128512]%N ++ runes_of_ascii " emoji
 { } options {
     // a // b
     tag // `tick` ""quote"" 'q'
@@ -2018,17 +1928,16 @@ Eval vm_compute in ("<<<M1538>>>" ++ check (runes_of_ascii "root packet Foo // "
     ; u8x = zchar[0  ] }
 MetaData
     int {zchar[ 10]
-lengthOf	``")).
-Eval vm_compute in ("<<<M4156>>>" ++ check (runes_of_ascii "packet MetaDataX {
-    repeat Z9_ Header,
-    @lengthOf(rootA)
-    stringy `it's`,
-    @tag(65535)
-    repeat Pad x `
-        `,
-    char[42] As `doc`,
-}")).
-Eval vm_compute in ("<<<M1523>>>" ++ check (runes_of_ascii "root packet Foo // " ++ [128512]%N ++ runes_of_ascii " emoji
+lengthOf	`` , i64 u8x`// not a comment` ,MetaDataX pack// `tick` ""quote"" 'q'
+`crlf
+line`
+, " ++ [233]%N ++ runes_of_ascii "Logon charz `crlf
+line`
+    ,
+    // a // b
+    }
+")).
+Eval vm_compute in ("<<<M1546>>>" ++ check (runes_of_ascii "root packet Foo // " ++ [128512]%N ++ runes_of_ascii " emoji
 { } options {
     // a // b
     tag // `tick` ""quote"" 'q'
@@ -2036,363 +1945,764 @@ Eval vm_compute in ("<<<M1523>>>" ++ check (runes_of_ascii "root packet Foo // "
 """"
     ; u8x = zchar[0  ] }
 MetaData
-    int {zchar[ 10")).
-Eval vm_compute in ("<<<M2329>>>" ++ check (runes_of_ascii "MetaData Packet { }packet	asx  { @lengthOf( asx) falsey`crlf
+    int {zchar[ 10]
+lengthOf	`` , i64 `// not a comment`u8x ,MetaDataX pack// `tick` ""quote"" 'q'
+`crlf
 line`
-,
-    }
-    packet x	{uint32// @lengthOf(
-rootA	,u32 options1 `say ""hi""`")).
-Eval vm_compute in ("<<<M615>>>" ++ check (runes_of_ascii "root packet a1	{ repeat T`it's`	,@calculatedFrom( ""a\""b"" ) repeat char[]metadata , float64 roots `crlf
-line` ,f64 Logon `doc` , }
-// c
-")).
-Eval vm_compute in ("<<<M4215>>>" ++ check (runes_of_ascii "
-root packet	charz 
-{ @tag( 
-
-// trailing space 
-    	0123456789
-
-    )
-string
-	a1 `// not a comment`
+, Logon charz `crlf
+line`
     ,
-}
-	options {
-
-    } ")).
-Eval vm_compute in ("<<<M3745>>>" ++ check (runes_of_ascii "packet A {
-    match k as n {
-        [
-            1, 007, 5, 7, ""bb"",
-            ""d"", ""f""
-        ] : B,
-        2 : C,
-    },
-}")).
-Eval vm_compute in ("<<<M1635>>>" ++ check (runes_of_ascii "root packet /// triple
-{ rootA	i32
-MetaDataX@calculatedFrom( ""CRC32"" ) `line1
-line2` , } MetaData BodyLength {
-u8
-rootA, } // c")).
-Eval vm_compute in ("<<<M1889>>>" ++ check (runes_of_ascii "packet
-    Pad // a // b
-{ i8i8 @calculatedFrom( ""a	b"") `u8 x,` ,
-} options{ float// " ++ [128512]%N ++ runes_of_ascii " emoji
-= @lengthOf f64 i64_
-=//	t
-00 }
-")).
-Eval vm_compute in ("<<<M3934>>>" ++ check (runes_of_ascii "// top
-packet B {
-    u8 a,
-    string s,// c8
-}// c9
-
-root packet P {
-    u16 L @lengthOf(B),// c19
-    B,
-    u8 t,
-}// c25")).
-Eval vm_compute in ("<<<M1660>>>" ++ check (runes_of_ascii "root packet /// triple
-rootA {	i32
-MetaDataX@calculatedFrom( : ) `line1
-line2` , } MetaData BodyLength {
-u8
-rootA, } // c")).
-Eval vm_compute in ("<<<M4196>>>" ++ check (runes_of_ascii "  packet
-B 
-{u8  a,
-
-    string
-s
-
-,
-    }	root packet
-P
-    {
-    u16  L	@lengthOf( B ) ,B,
-    u8
-
-t
-	,
-
+    // a // b
     }
-
 ")).
-Eval vm_compute in ("<<<M1853>>>" ++ check (runes_of_ascii "packet
-    Pad // a // b
-{ i8i8 @calculatedFrom( ""a	b"") `u8 x,` ,
-} options{ float// " ++ [128512]%N ++ runes_of_ascii " emoji
-= root i64_
-=//	t
-00 }
-")).
-Eval vm_compute in ("<<<M1848>>>" ++ check (runes_of_ascii "packet
-    Pad // a // b
-{ i8i8 @calculatedFrom( ""a	b"") `u8 x,` ,
-} options{ float// " ++ [128512]%N ++ runes_of_ascii " emoji
-{ f64 i64_
-=//	t
-00 }
-")).
-Eval vm_compute in ("<<<M1378>>>" ++ check (runes_of_ascii "packet f32a
-    {int16 int
-    ,
-    } MetaData f32a { char i8i8 , /// triple
-string Pad, zchar
-f32a ,
-    x	T,
-}
-")).
-Eval vm_compute in ("<<<M1483>>>" ++ check (runes_of_ascii "root packet Foo // " ++ [128512]%N ++ runes_of_ascii " emoji
+Eval vm_compute in ("<<<M1594>>>" ++ check (runes_of_ascii "root packet Foo // " ++ [128512]%N ++ runes_of_ascii " emoji
 { } options {
     // a // b
     tag // `tick` ""quote"" 'q'
 = //	t
 """"
-    ; u8x = zchar[")).
-Eval vm_compute in ("<<<M1815>>>" ++ check (runes_of_ascii "packet
+    ; u8x = zchar[0  ] }
+MetaData
+    int {zchar[ 10]
+lengthOf	`` , i64 u8x`// not a comment` ,MetaDataX pack// `tick` ""quote"" 'q'
+`crlf
+line`
+, Logon charz `crlf
+line`
+    
+    // a // b
+    }
+")).
+Eval vm_compute in ("<<<M3729>>>" ++ check (runes_of_ascii "options {
+    calculatedFrom = i32;// @lengthOf(
+    string_ = 7
+    uint8x = true;
+}
+
+packet chars {
+    string stringy @lengthOf(stringy),
+}
+
+options {
+    lengthOf = '\x00'
+    // c
+    /// triple
+    matchKey = '0';
+    Z9_ = string;
+    calculatedFrom = true;
+    metadata = ""a	b"";
+}")).
+Eval vm_compute in ("<<<M1589>>>" ++ check (runes_of_ascii "root packet Foo // " ++ [128512]%N ++ runes_of_ascii " emoji
+{ } options {
+    // a // b
+    tag // `tick` ""quote"" 'q'
+= //	t
+""""
+    ; u8x = zchar[0  ] }
+MetaData
+    int {zchar[ 10]
+lengthOf	`` , i64 u8x`// not a comment` ,MetaDataX pack// `tick` ""quote"" 'q'
+`crlf
+line`
+, Logon charz 
+    ,
+    // a // b
+    }
+")).
+Eval vm_compute in ("<<<M1265>>>" ++ check (runes_of_ascii "root packet metadata {// packet A { u8 x, }
+@tag(
+    7)
+@rightPad (
+'0')
+match
+o as
+asx {
+// packet A { u8 x, }
+// packet A { u8 x, }
+[ 65535/// triple
+, ""a	b""] :tag , 0 :
+// c
+// " ++ [128512]%N ++ runes_of_ascii " emoji
+matchKey ,  4294967296:o// `tick` ""quote"" 'q'
+, ""it's"": /// triple
+_x	,}	, }
+")).
+Eval vm_compute in ("<<<M951>>>" ++ check (runes_of_ascii "root packet
+    pack {
+body ,
+char[
+10
+]	options1 ,	@tag( 007 )
+    //	t
+    @rightPad ( )@calculatedFrom( ""\n""
+)
+    // " ++ [128512]%N ++ runes_of_ascii " emoji
+    char[] tag
+    , repeat char[] Header  `` , asx {
+    repeat u8x
+    { repeat	u8 x_y_z , }// c
+, }
+,
+}MetaData pack { }
+")).
+Eval vm_compute in ("<<<M1588>>>" ++ check (runes_of_ascii "root packet Foo // " ++ [128512]%N ++ runes_of_ascii " emoji
+{ } options {
+    // a // b
+    tag // `tick` ""quote"" 'q'
+= //	t
+""""
+    ; u8x = zchar[0  ] }
+MetaData
+    int {zchar[ 10]
+lengthOf	`` , i64 u8x`// not a comment` ,MetaDataX pack// `tick` ""quote"" 'q'
+`crlf
+line`
+, Logon")).
+Eval vm_compute in ("<<<M4015>>>" ++ check (runes_of_ascii "packet  Logon {
+
+    @lengthOf(
+    Pad) 
+int{
+
+match
+matchKey as
+Pad  { ""CRC32""
+    :
+body
+
+, }
+
+,len
+	    // `tick` ""quote"" 'q'
+
+  @lengthOf(	// `tick` ""quote"" 'q'
+    	chars
+)
+    /// triple
+,
+    float@lengthOf(
+Foo 
+)
+	, }
+	,	}")).
+Eval vm_compute in ("<<<M3503>>>" ++ check (runes_of_ascii "packet
+Logon { string
+user
+	,
+
+    }
+
+    root
+packet
+Frame
+
+{
+u8	K 
+,
+	match
+K	as  Body{
+
+    1
+	:Logon  ,2 
+:  Logout
+
+,
+}
+
+, 
+Tail,}
+	packet
+	Logout	{
+    u16
+    reason,
+    }
+packet Tail	{
+
+u32
+
+    crc
+
+, } ")).
+Eval vm_compute in ("<<<M2281>>>" ++ check (runes_of_ascii "MetaData Packet { }packet	asx  { @lengthOf( asx) falsey`crlf
+line`
+,
+    }
+    packet packet x	{uint32// @lengthOf(
+rootA	,u32 options1 `say ""hi""` , @tag( 7
+    )// packet A { u8 x, }
+msg_type @lengthOf(
+stringy	)	, }
+
+")).
+Eval vm_compute in ("<<<M2226>>>" ++ check (runes_of_ascii "MetaData Packet { } }packet	asx  { @lengthOf( asx) falsey`crlf
+line`
+,
+    }
+    packet x	{uint32// @lengthOf(
+rootA	,u32 options1 `say ""hi""` , @tag( 7
+    )// packet A { u8 x, }
+msg_type @lengthOf(
+stringy	)	, }
+
+")).
+Eval vm_compute in ("<<<M2388>>>" ++ check (runes_of_ascii "MetaData Packet { }packet	asx  { @lengthO" ++ [8232]%N ++ runes_of_ascii "f( asx) falsey`crlf
+line`
+,
+    }
+    packet x	{uint32// @lengthOf(
+rootA	,u32 options1 `say ""hi""` , @tag( 7
+    )// packet A { u8 x, }
+msg_type @lengthOf(
+stringy	)	, }
+
+")).
+Eval vm_compute in ("<<<M2347>>>" ++ check (runes_of_ascii "MetaData Packet { }packet	asx  { @lengthOf( asx) falsey`crlf
+line`
+,
+    }
+    packet x	{uint32// @lengthOf(
+rootA	,u32 options1 `say ""hi""` , @tag( 7
+    )// packet A { u8 x, }
+@lengthOf( msg_type
+stringy	)	, }
+
+")).
+Eval vm_compute in ("<<<M686>>>" ++ check (runes_of_ascii "// " ++ [27880; 37322]%N ++ runes_of_ascii "
+MetaData T{char[// @lengthOf(
+3 ] stringy`a\`
+,
+char[
+/// triple
+//x
+007 ] u // trailing space 
+`u8 x,` ,  char[]
+    int //x
+`" ++ [28040; 24687; 31867; 22411]%N ++ runes_of_ascii "`,	zchar[
+// " ++ [128512]%N ++ runes_of_ascii " emoji
+// a // b
+4294967296 ] leftPad
+, char[]
+uint8x , }
+
+")).
+Eval vm_compute in ("<<<M173>>>" ++ check (runes_of_ascii "//
+packet
+    u { }
+    packet
+    u8x { }options  {
+    Logon =string ; calculatedFrom ='\x00'
+;
+BodyLength// " ++ [27880; 37322]%N ++ runes_of_ascii "
+= 1; //	t
+_x// " ++ [27880; 37322]%N ++ runes_of_ascii "
+=""CRC32""; } root
+/// triple
+// " ++ [27880; 37322]%N ++ runes_of_ascii "
+packet Z9_ {
+}
+    MetaData chars  {
+}
+")).
+Eval vm_compute in ("<<<M699>>>" ++ check (runes_of_ascii "packet
+    Header { @calculatedFrom(""a	b"" ) match u128
+    /// triple
+    as // trailing space 
+A
+    { 42// " ++ [128512]%N ++ runes_of_ascii " emoji
+: Header [ 3 ,
+// trailing space 
+// " ++ [27880; 37322]%N ++ runes_of_ascii "
+""packet"" , ""x y"" , ""a	b""
+    ]: zchar , },
+}")).
+Eval vm_compute in ("<<<M1309>>>" ++ check (runes_of_ascii "MetaData  asx { /// triple
+uint16 //
+leftPad , char[ 4294967296 ] matchKey	`
+` ,
+// @lengthOf(
+/// triple
+u32 options1 , zchar[ // @lengthOf(
+0 ] falsey
+`it's`
+, char leftPad
+    `u8 x,` , }
+")).
+Eval vm_compute in ("<<<M2354>>>" ++ check (runes_of_ascii "MetaData Packet { }packet	asx  { @lengthOf( asx) falsey`crlf
+line`
+,
+    }
+    packet x	{uint32// @lengthOf(
+rootA	,u32 options1 `say ""hi""` , @tag( 7
+    )// packet A { u8 x, }
+msg_type")).
+Eval vm_compute in ("<<<M494>>>" ++ check (runes_of_ascii "packet u128
+{
+} MetaData
+    int {int16 crc//	t
+,
+    uint32 Pad,}packet string_ {} packet// @lengthOf(
+BodyLength {	msg_type	leftPad `a\` , }
+options{ tag = false charz = 3
+; }
+")).
+Eval vm_compute in ("<<<M1553>>>" ++ check (runes_of_ascii "root packet Foo // " ++ [128512]%N ++ runes_of_ascii " emoji
+{ } options {
+    // a // b
+    tag // `tick` ""quote"" 'q'
+= //	t
+""""
+    ; u8x = zchar[0  ] }
+MetaData
+    int {zchar[ 10]
+lengthOf	`` , i64 u8x")).
+Eval vm_compute in ("<<<M693>>>" ++ check (runes_of_ascii "
+options
+    {a1
+=char[ 1]// " ++ [27880; 37322]%N ++ runes_of_ascii "
+; x=f64; Z9_ =
+//x
+//
+char[
+3 ]
+; Z9_= '\x00' x_y_z
+    = zchar[ 10 ]
+; }
+    packet x_y_z { chars trueish `it's`
+// " ++ [128512]%N ++ runes_of_ascii " emoji
+//x
+, }")).
+Eval vm_compute in ("<<<M4100>>>" ++ check (runes_of_ascii "
+
+  packet 
+crc	{@lengthOf(
+
+/// triple
+calculatedFrom 
+	    /// triple
+      ) i64_ {	uint64 
+_x,} 
+,@rightPad  (
+
+'0')
+
+uint8x,
+	// packet A { u8 x, }
+	}")).
+Eval vm_compute in ("<<<M3474>>>" ++ check (runes_of_ascii "packet A {
+    u8 a,
+}
+packet B {
+    u16 b,
+}
+root packet P {
+    u8 K,
+    match K as M {
+        [1, 2] : A,
+        3 : B,
+        7 : A,
+    },
+}
+")).
+Eval vm_compute in ("<<<M1296>>>" ++ check (runes_of_ascii "packet
+    u128 { u128  @lengthOf( matchKey
+)
+,	u64 //x
+crc	`a\`
+,@calculatedFrom(
+""x y"" )
+float32 zchar  ,
+repeat char[007 ] uint8x ,
+a1
+, }
+")).
+Eval vm_compute in ("<<<M3752>>>" ++ check (runes_of_ascii "packet A {
+    match k as n {
+        [
+            1, ""bb"", 007, ""d"", 5,
+            ""f"", 7, ""h"", 9
+        ] : B,
+        2 : C,
+    },
+}")).
+Eval vm_compute in ("<<<M1230>>>" ++ check (runes_of_ascii "packet Z9_ { match leftPad as options1{
+65535
+    : //	t
+matchKey ,
+    // packet A { u8 x, }
+    } , T
+//x
+// `tick` ""quote"" 'q'
+,}
+
+")).
+Eval vm_compute in ("<<<M3963>>>" ++ check (runes_of_ascii "// top
+packet Inner {
+    // c2a
+    // c2b
+    u8 a,
+}
+
+root packet P {
+    // c10
+    Inner ref_obj,
+    u8 x,
+    // c16
+}
+// c17")).
+Eval vm_compute in ("<<<M4334>>>" ++ check (runes_of_ascii "options {
+    // c
+    stringy = ""1"";
+    float = i64;// a // b
+    calculatedFrom = ""it's"";// c
+    Z9_ = ""// no comment"";// " ++ [27880; 37322]%N ++ runes_of_ascii "
+}")).
+Eval vm_compute in ("<<<M1710>>>" ++ check (runes_of_ascii "root packet /// triple
+rootA {	i32
+MetaDataX@calculatedFrom( ""CRC32"" ) `line1
+line2` , } MetaData BodyLength {
+u8
+rootA( } // c")).
+Eval vm_compute in ("<<<M1642>>>" ++ check (runes_of_ascii "root packet /// triple
+rootA {	
+MetaDataX@calculatedFrom( ""CRC32"" ) `line1
+line2` , } MetaData BodyLength {
+u8
+rootA, } // c")).
+Eval vm_compute in ("<<<M1702>>>" ++ check (runes_of_ascii "root packet /// triple
+rootA {	i32
+MetaDataX@calculatedFrom( ""CRC32"" ) `line1
+line2` , } MetaData BodyLength {
+u8
+, } // c")).
+Eval vm_compute in ("<<<M2319>>>" ++ check (runes_of_ascii "MetaData Packet { }packet	asx  { @lengthOf( asx) falsey`crlf
+line`
+,
+    }
+    packet x	{uint32// @lengthOf(
+rootA	,u32")).
+Eval vm_compute in ("<<<M1861>>>" ++ check (runes_of_ascii "packet
     Pad // a // b
-{ i8i8 @calculatedFrom( ""a	b"")  ,
+{ i8i8 @calculatedFrom( ""a	b"") `u8 x,` ,
 } options{ float// " ++ [128512]%N ++ runes_of_ascii " emoji
 = f64 i64_
-=//	t
+= =//	t
 00 }
 ")).
-Eval vm_compute in ("<<<M2965>>>" ++ check (runes_of_ascii "packet A {
-  match k as n {
-    [""a"", ""bb"", ""c c"", ""d"", ""e"", ""f"", ""g"", ""h"", ""i"", ""j""] : B,
-    2 : C
-  },
-}")).
-Eval vm_compute in ("<<<M3376>>>" ++ check (runes_of_ascii "packet calculatedFrom { @tag( 4294967296 ) u msg_type , char[ 3 ] crc @lengthOf( len ) `u8 x,` , }
-// c
+Eval vm_compute in ("<<<M4079>>>" ++ check (runes_of_ascii "
+packet
+	Pad{
+
+}	packet
+	options1{ 	 // trailing space 
+	}  
+  // @lengthOf(
+
+root packet crc {
+repeat	crc 
+len ,	} ")).
+Eval vm_compute in ("<<<M241>>>" ++ check (runes_of_ascii "packet Pad {}packet
+    options1{// trailing space 
+}
+    // @lengthOf(
+    root
+packet
+crc
+{
+    repeat crc len , }")).
+Eval vm_compute in ("<<<M75>>>" ++ check (runes_of_ascii "options { pack =0 } MetaData int{ char[	00
+    ]
+    T
+    `crlf
+line` ,  i8 string_
+,//	t
+int16
+matchKey , }
 ")).
-Eval vm_compute in ("<<<M3358>>>" ++ check (runes_of_ascii "packet calculatedFrom { @tag( 4294967296 ) u msg_type , char[
-// c
-3 ] crc @lengthOf( len ) `u8 x,` , }")).
-Eval vm_compute in ("<<<M2974>>>" ++ check (runes_of_ascii "packet A {
-  match k as n {
-    [""a"", ""bb"", 007, ""d"", ""e"", 66, ""g"", ""h"", 9, ""j""] : B
-    2 : C
-  },
+Eval vm_compute in ("<<<M4295>>>" ++ check (runes_of_ascii "
+packet	Logon{ @tag(  42// c
+  )
+@rightPad
+    (
+' '
+) @leftPad ( 
+)
+repeat	trueish { string	T  ,
+} ,	}
+")).
+Eval vm_compute in ("<<<M1391>>>" ++ check (runes_of_ascii "options
+{
+x_y_z =
+    uint32 asx = float64 body  = '0'
+u = '\x00' ; Header = '0'
+;  }
+    options { } // " ++ [27880; 37322]%N)).
+Eval vm_compute in ("<<<M3034>>>" ++ check (runes_of_ascii "packet A {
+    u16 len @lengthOf(body) `x
+`,
+    u32 crc @calculatedFrom(""CRC32"") `x
+`,
+    string body,
 }")).
-Eval vm_compute in ("<<<M572>>>" ++ check (runes_of_ascii "MetaData //	t
-calculatedFrom {	uint32 trueish`crlf
-line`
-, i32 roots `doc`
-,float64 lengthOf
-,}")).
-Eval vm_compute in ("<<<M635>>>" ++ check (runes_of_ascii "packet// trailing space 
-len
-{f32 MetaDataX @calculatedFrom(	""{,}"" )
-,
-} // packet A { u8 x, }")).
-Eval vm_compute in ("<<<M3240>>>" ++ check (runes_of_ascii "packet Logon { @tag( 42 ) @rightPad ( ' ' ) @leftPad ( ) // c
+Eval vm_compute in ("<<<M1275>>>" ++ check (runes_of_ascii "root
+packet  len{ @rightPad (
+    ' ' ) @tag(0 ) int16 msg_type `{ , }` ,
+}
+packet
+    leftPad
+    {	}
+")).
+Eval vm_compute in ("<<<M3365>>>" ++ check (runes_of_ascii "packet calculatedFrom { @tag( 4294967296 ) u msg_type , char[ 3 ] crc @lengthOf( // c
+len ) `u8 x,` , }")).
+Eval vm_compute in ("<<<M3862>>>" ++ check (runes_of_ascii "  packet orderItem{
+    u8
+
+    a
+
+    , }
+root
+	packet
+	newOrder{
+
+    orderItem
+, u8 
+x , }
+")).
+Eval vm_compute in ("<<<M969>>>" ++ check (runes_of_ascii "packet charz { // trailing space 
+@tag(255	) @calculatedFrom(""packet"" ) u32 repeatCount	,// c
+}
+")).
+Eval vm_compute in ("<<<M777>>>" ++ check (runes_of_ascii "
+options
+    {	matchKey =
+0 BodyLength =
+uint64 ; pack  = ""1"" ;
+    f32a = i64 Foo=
+    ""a	b"" }")).
+Eval vm_compute in ("<<<M3241>>>" ++ check (runes_of_ascii "packet Logon { @tag( 42 ) @rightPad ( ' ' ) @leftPad ( )
+// c
 repeat trueish { string T , } , }")).
-Eval vm_compute in ("<<<M3983>>>" ++ check (runes_of_ascii "  MetaData  uint8x {  // " ++ [27880; 37322]%N ++ runes_of_ascii "
-    	packetx
-body 
-`// not a comment` ,
-    zchar[  7
-] rootA ,}
-
-")).
-Eval vm_compute in ("<<<M3880>>>" ++ check (runes_of_ascii "
-
-  MetaData calculatedFrom {  // a // b
-	u64
-A  ,
-
-float32
-
-    u8x ,
-
-} 
-    // " ++ [27880; 37322]%N ++ runes_of_ascii "
- 
-")).
-Eval vm_compute in ("<<<M2012>>>" ++ check (runes_of_ascii "root
-packet crc
-    { f32a @calculatedFrom( """ ++ [233]%N ++ runes_of_ascii "t" ++ [233]%N ++ runes_of_ascii """ )
-    `say ""hi""`, lengthOf `` `` ,  }")).
-Eval vm_compute in ("<<<M2033>>>" ++ check (runes_of_ascii "root
-packet crc
-    { f32a @calculatedFrom(# """ ++ [233]%N ++ runes_of_ascii "t" ++ [233]%N ++ runes_of_ascii """ )
-    `say ""hi""`, lengthOf `` ,  }")).
-Eval vm_compute in ("<<<M2800>>>" ++ check (runes_of_ascii "@tag( ) true @calculatedFrom( repeat ] as `say ""hi""` char[ MetaData i32 int16 i32 f32")).
-Eval vm_compute in ("<<<M4151>>>" ++ check (runes_of_ascii "MetaData Packet {
+Eval vm_compute in ("<<<M1878>>>" ++ check (runes_of_ascii "packet
+    Pad // a // b
+{ i8i8 @calculatedFrom( ""a	b"") `u8 x,` ,
+} options{ float// " ++ [128512]%N ++ runes_of_ascii " emoji")).
+Eval vm_compute in ("<<<M3599>>>" ++ check (runes_of_ascii "packet o {
+    @tag(42)
+    repeat x {
+        char[0123456789] i64_,
+    },
 }
 
-packet asx {
-    @lengthOf(asx)
-    falsey `crlf
-    line`,
-}")).
-Eval vm_compute in ("<<<M3299>>>" ++ check (runes_of_ascii "packet o {
-// c
-@tag( 42 ) repeat x { char[ 0123456789 ] i64_ , } , } options { }")).
-Eval vm_compute in ("<<<M3331>>>" ++ check (runes_of_ascii "packet o { @tag( 42 ) repeat x { char[ 0123456789 ] i64_ , } , } options {
-// c
-}")).
-Eval vm_compute in ("<<<M3057>>>" ++ check (runes_of_ascii "packet A {
-    u32 crc @calculatedFrom(""\
-""),
-    @calculatedFrom(""\
-"") u8 y,
-}")).
-Eval vm_compute in ("<<<M2734>>>" ++ check (runes_of_ascii "@lengthOf( float64 @calculatedFrom( f64 uint16 int8 char i16 packet = repeat")).
-Eval vm_compute in ("<<<M4445>>>" ++ check (runes_of_ascii "// `tick` ""quote"" 'q'
 options {
-    leftPad = float32
-}
-
-root packet o {
 }")).
-Eval vm_compute in ("<<<M2875>>>" ++ check (runes_of_ascii "packet A {
+Eval vm_compute in ("<<<M3658>>>" ++ check (runes_of_ascii "packet A {
+    match k as n {
+        [1, ""bb"", 007, ""d"", 5] : B,
+        2 : C,
+    },
+}")).
+Eval vm_compute in ("<<<M3584>>>" ++ check (runes_of_ascii "  packet
+	trueish 
+
+    //x
+    {@calculatedFrom(
+
+    ""abc""  )body
+	`tab	here`
+	,}
+
+")).
+Eval vm_compute in ("<<<M1960>>>" ++ check (runes_of_ascii "packet
+root crc
+    { f32a @calculatedFrom( """ ++ [233]%N ++ runes_of_ascii "t" ++ [233]%N ++ runes_of_ascii """ )
+    `say ""hi""`, lengthOf `` ,  }")).
+Eval vm_compute in ("<<<M2045>>>" ++ check (runes_of_ascii "root
+packet crc
+    { a" ++ [769]%N ++ runes_of_ascii "b @calculatedFrom( """ ++ [233]%N ++ runes_of_ascii "t" ++ [233]%N ++ runes_of_ascii """ )
+    `say ""hi""`, lengthOf `` ,  }")).
+Eval vm_compute in ("<<<M2932>>>" ++ check (runes_of_ascii "packet A {
   match k as n {
-    [""a"", ""bb"", ""c c""] : B
+    [1, 22, ""c c"", 4, 5, ""f"", 7] : B,
     2 : C
   },
 }")).
-Eval vm_compute in ("<<<M3403>>>" ++ check (runes_of_ascii "MetaData _x { zchar[ 4294967296 // c
-] lengthOf `// not a comment` , }")).
-Eval vm_compute in ("<<<M884>>>" ++ check (runes_of_ascii "packet trueish { repeat rootA
-    // " ++ [128512]%N ++ runes_of_ascii " emoji
-    ,i64_
-lengthOf,
+Eval vm_compute in ("<<<M3308>>>" ++ check (runes_of_ascii "packet o { @tag( 42 ) repeat x // c
+{ char[ 0123456789 ] i64_ , } , } options { }")).
+Eval vm_compute in ("<<<M856>>>" ++ check (runes_of_ascii "MetaData
+    uint8x{ // " ++ [27880; 37322]%N ++ runes_of_ascii "
+packetx body
+`// not a comment`, zchar[ 7 ]rootA , }")).
+Eval vm_compute in ("<<<M46>>>" ++ check (runes_of_ascii "options
+    {
+    }packet
+    repeatCount { // `tick` ""quote"" 'q'
+}options{}
+")).
+Eval vm_compute in ("<<<M2284>>>" ++ check (runes_of_ascii "MetaData Packet { }packet	asx  { @lengthOf( asx) falsey`crlf
+line`
+,
+    }")).
+Eval vm_compute in ("<<<M3806>>>" ++ check (runes_of_ascii "packet
+A
+{match	k as  n
+{
+    [
+1,
+	""bb""
+    ] :B
+, 
+2
+    : 
+C }	, }")).
+Eval vm_compute in ("<<<M417>>>" ++ check (runes_of_ascii "MetaData uint8x
+{ zchar[ 10]
+//x
+// trailing space 
+Foo `tab	here` , }
+")).
+Eval vm_compute in ("<<<M3400>>>" ++ check (runes_of_ascii "MetaData _x {
+// c
+zchar[ 4294967296 ] lengthOf `// not a comment` , }")).
+Eval vm_compute in ("<<<M4336>>>" ++ check (runes_of_ascii "
+packet	Z9_
+    {
+
+    body
+MetaDataX
+, 
+}	MetaData asx
+{
+	}//	t
+")).
+Eval vm_compute in ("<<<M2196>>>" ++ check (runes_of_ascii "root
+    // `t" ++ [65279]%N ++ runes_of_ascii "ick` ""quote"" 'q'
+    packet As { trueish Packet , }
+")).
+Eval vm_compute in ("<<<M3465>>>" ++ check (runes_of_ascii "root packet P {
+    u8 s_u8,
+    repeat u8 r_u8,
+    u16 b_len,
 }
 ")).
-Eval vm_compute in ("<<<M2274>>>" ++ check (runes_of_ascii "MetaData Packet { }packet	asx  { @lengthOf( asx) falsey`crlf
-line`")).
-Eval vm_compute in ("<<<M4051>>>" ++ check (runes_of_ascii "MetaData charz {
-    int8 _x `tab	here`,
-    u64 Pad `say ""hi""`,
-}")).
-Eval vm_compute in ("<<<M416>>>" ++ check (runes_of_ascii "  root packet u
-//	t
-//	t
-{ Foo
-int ,// `tick` ""quote"" 'q'
-}
+Eval vm_compute in ("<<<M4361>>>" ++ check (runes_of_ascii "
+packet
+x_y_z {	i8
+
+    As 
+@calculatedFrom(
+
+""a	b"" )
+,
+	}
+
 ")).
-Eval vm_compute in ("<<<M2185>>>" ++ check (runes_of_ascii "root
+Eval vm_compute in ("<<<M1916>>>" ++ check (runes_of_ascii "
+packet	As { @calculatedFrom(//x
+""{,}"" ""{,}""	)lengthOf , } 	 ")).
+Eval vm_compute in ("<<<M2171>>>" ++ check (runes_of_ascii "root
     // `tick` ""quote"" 'q'
-    packet As { trueish Packet")).
-Eval vm_compute in ("<<<M1210>>>" ++ check (runes_of_ascii "options
-    {matchKey // `tick` ""quote"" 'q'
-='0' // " ++ [27880; 37322]%N ++ runes_of_ascii "
-; }
+    packet As {  Packet , }
 ")).
 Eval vm_compute in ("<<<M1931>>>" ++ check (runes_of_ascii "
 packet	As { @calculatedFrom(//x
 ""{,}""	)lengthOf , , } 	 ")).
-Eval vm_compute in ("<<<M3967>>>" ++ check (runes_of_ascii "MetaData u128 {
-    options1 falsey,
-    zchar[007] x,
-}")).
+Eval vm_compute in ("<<<M2788>>>" ++ check (runes_of_ascii "repeat } ( f32 char[ repeat false int32 uint64 @rightPad")).
 Eval vm_compute in ("<<<M1397>>>" ++ check (runes_of_ascii "root
     packet f32a// a // b
 { zchar[ 00
     ]a1, }
 ")).
-Eval vm_compute in ("<<<M3377>>>" ++ check (runes_of_ascii "// top
-packet // c0
-lengthOf // c1
-{ // c2
-} // c3
-")).
-Eval vm_compute in ("<<<M1809>>>" ++ check (runes_of_ascii "packet
-    Pad // a // b
-{ i8i8 @calculatedFrom(")).
-Eval vm_compute in ("<<<M4465>>>" ++ check (runes_of_ascii "  MetaData
-
-    Packet
-
+Eval vm_compute in ("<<<M3769>>>" ++ check (runes_of_ascii "packet A
     {
-}
-// a // b
+
+    u8 x
+`d" ++ [11]%N ++ runes_of_ascii "`
+    ,  // c" ++ [11]%N ++ runes_of_ascii "
+	}
+
 ")).
-Eval vm_compute in ("<<<M1769>>>" ++ check (runes_of_ascii "options |{ }options {  } // `tick` ""quote"" 'q'")).
-Eval vm_compute in ("<<<M3006>>>" ++ check (runes_of_ascii "MetaData M {
-    u8 x `a
-b`,
-    T t `a
-b`,
-}")).
-Eval vm_compute in ("<<<M2851>>>" ++ check (runes_of_ascii ", string [ f32 = repeatCount f64 { MetaData")).
-Eval vm_compute in ("<<<M2127>>>" ++ check (runes_of_ascii "MetaData x
+Eval vm_compute in ("<<<M1957>>>" ++ check (runes_of_ascii "
+packet	As { @calculatedFrom(//x
+""{,}""	)" ++ [21517; 23383]%N ++ runes_of_ascii " , } 	 ")).
+Eval vm_compute in ("<<<M837>>>" ++ check (runes_of_ascii "MetaData // @lengthOf(
+tag{  lengthOf Pad
+, }
+")).
+Eval vm_compute in ("<<<M591>>>" ++ check (runes_of_ascii "
+root
+packet BodyLength { } packet uint8x { }")).
+Eval vm_compute in ("<<<M2817>>>" ++ check (runes_of_ascii "i8 root char[] as `a\` uint8x f64 @rightPad ]")).
+Eval vm_compute in ("<<<M2254>>>" ++ check (runes_of_ascii "MetaData Packet { }packet	asx  { @lengthOf(")).
+Eval vm_compute in ("<<<M824>>>" ++ check (runes_of_ascii "MetaData trueish {i8 MetaDataX // " ++ [27880; 37322]%N ++ runes_of_ascii "
+, }")).
+Eval vm_compute in ("<<<M2130>>>" ++ check (runes_of_ascii "MetaData x
 {// " ++ [128512]%N ++ runes_of_ascii " emoji
-i16 stringy root }")).
-Eval vm_compute in ("<<<M2190>>>" ++ check (runes_of_ascii "root
-    // `tick` ""quote"" 'q'
-    packe")).
-Eval vm_compute in ("<<<M3998>>>" ++ check (runes_of_ascii "// top
-options {
-    // c1
-    u8x = 3
-}")).
+i16 stringy , } }")).
+Eval vm_compute in ("<<<M3697>>>" ++ check (runes_of_ascii "  root packet
+
+A
+    {u8 
+x 
+`a
+b`	, } ")).
 Eval vm_compute in ("<<<M2103>>>" ++ check (runes_of_ascii "x MetaData
 {// " ++ [128512]%N ++ runes_of_ascii " emoji
 i16 stringy , }")).
-Eval vm_compute in ("<<<M2612>>>" ++ check (runes_of_ascii "packet A { match as as n { 1 : B }, }")).
-Eval vm_compute in ("<<<M542>>>" ++ check (runes_of_ascii "packet chars
-    { repeat pack , }
+Eval vm_compute in ("<<<M2405>>>" ++ check (runes_of_ascii "MetaData A
+{
+i64
+chars	, } // `tick` ")).
+Eval vm_compute in ("<<<M1198>>>" ++ check (runes_of_ascii "// packet A { u8 x, }
+options { }
 ")).
-Eval vm_compute in ("<<<M3031>>>" ++ check (runes_of_ascii "root packet A {
-    u8 x `a
+Eval vm_compute in ("<<<M4455>>>" ++ check (runes_of_ascii "  root
+	packet
+P
+{
+string  s , } ")).
+Eval vm_compute in ("<<<M3878>>>" ++ check (runes_of_ascii "packet A {
+    x @lengthOf(y),
+}")).
+Eval vm_compute in ("<<<M2600>>>" ++ check (runes_of_ascii "packet A { match k as n { }, }")).
+Eval vm_compute in ("<<<M2067>>>" ++ check (runes_of_ascii "MetaData A { u64 pack pack, }")).
+Eval vm_compute in ("<<<M4418>>>" ++ check (runes_of_ascii "
+packet
+    A {
+	}  // c 
+ 
+")).
+Eval vm_compute in ("<<<M819>>>" ++ check (runes_of_ascii "  packet
+repeatCount  {}
 
-b`,
-}")).
-Eval vm_compute in ("<<<M3037>>>" ++ check (runes_of_ascii "root packet A {
-    u8 x `x
-`,
-}")).
-Eval vm_compute in ("<<<M1368>>>" ++ check (runes_of_ascii "// trailing space 
-options {
-}")).
-Eval vm_compute in ("<<<M3948>>>" ++ check (runes_of_ascii "options {
-    falsey = false
-}")).
-Eval vm_compute in ("<<<M2795>>>" ++ check (runes_of_ascii "<|FXC|?SbA8$TVGm\{-S%&F;R{X5")).
-Eval vm_compute in ("<<<M288>>>" ++ check (runes_of_ascii "packet
-repeatCount {
-    }")).
-Eval vm_compute in ("<<<M1720>>>" ++ check (runes_of_ascii "root packet /// triple
-r")).
-Eval vm_compute in ("<<<M1034>>>" ++ check (runes_of_ascii "root packet a1 //	t
-{ }")).
-Eval vm_compute in ("<<<M3386>>>" ++ check (runes_of_ascii "packet lengthOf { // c
-}")).
-Eval vm_compute in ("<<<M979>>>" ++ check (runes_of_ascii "packet //
-roots  { }
 ")).
-Eval vm_compute in ("<<<M2572>>>" ++ check (runes_of_ascii "packet A { x y `d`, }")).
-Eval vm_compute in ("<<<M3588>>>" ++ check (runes_of_ascii "MetaData leftPad {
+Eval vm_compute in ("<<<M2089>>>" ++ check (runes_of_ascii "MetaData A @{ u64 pack, }")).
+Eval vm_compute in ("<<<M2049>>>" ++ check (runes_of_ascii "A MetaData { u64 pack, }")).
+Eval vm_compute in ("<<<M3764>>>" ++ check (runes_of_ascii "packet lengthOf {
+}
+// c")).
+Eval vm_compute in ("<<<M772>>>" ++ check (runes_of_ascii "packet
+    crc {
+    }")).
+Eval vm_compute in ("<<<M2645>>>" ++ check (runes_of_ascii "MetaData M { x y z, }")).
+Eval vm_compute in ("<<<M4329>>>" ++ check (runes_of_ascii "packet o {
+    //x
 }")).
-Eval vm_compute in ("<<<M567>>>" ++ check (runes_of_ascii "root packet a1 { }")).
-Eval vm_compute in ("<<<M3092>>>" ++ check (runes_of_ascii "// c" ++ [8202]%N ++ runes_of_ascii "
+Eval vm_compute in ("<<<M4208>>>" ++ check (runes_of_ascii "options
+
+    {  }")).
+Eval vm_compute in ("<<<M3082>>>" ++ check (runes_of_ascii "// c" ++ [5760]%N ++ runes_of_ascii "
 packet A {
 }")).
-Eval vm_compute in ("<<<M2569>>>" ++ check (runes_of_ascii "packet A { x y, }")).
-Eval vm_compute in ("<<<M184>>>" ++ check (runes_of_ascii "packet As
-{
-}
+Eval vm_compute in ("<<<M2229>>>" ++ check (runes_of_ascii "MetaData Packet {")).
+Eval vm_compute in ("<<<M3167>>>" ++ check (runes_of_ascii "options { // a
+ }")).
+Eval vm_compute in ("<<<M2689>>>" ++ check (runes_of_ascii "= u32 """" uint64")).
+Eval vm_compute in ("<<<M906>>>" ++ check (runes_of_ascii "
+// " ++ [128512]%N ++ runes_of_ascii " emoji
 ")).
-Eval vm_compute in ("<<<M2711>>>" ++ check ([65533; 65533]%N ++ runes_of_ascii "S" ++ [65533; 65533; 65533; 65533]%N ++ runes_of_ascii "L" ++ [65533]%N ++ runes_of_ascii "w" ++ [65533; 65533; 65533; 21; 65533]%N)).
-Eval vm_compute in ("<<<M303>>>" ++ check (runes_of_ascii "options	{
-}
-")).
-Eval vm_compute in ("<<<M2538>>>" ++ check (runes_of_ascii ":,;=()[]{}")).
-Eval vm_compute in ("<<<M4423>>>" ++ check (runes_of_ascii "
-// c" ++ [8232]%N ++ runes_of_ascii "
-")).
-Eval vm_compute in ("<<<M2466>>>" ++ check (runes_of_ascii "Packet")).
-Eval vm_compute in ("<<<M2511>>>" ++ check (runes_of_ascii """ab""")).
-Eval vm_compute in ("<<<M2446>>>" ++ check (runes_of_ascii "true")).
-Eval vm_compute in ("<<<M2497>>>" ++ check (runes_of_ascii "///")).
-Eval vm_compute in ("<<<M2495>>>" ++ check (runes_of_ascii "//")).
-Eval vm_compute in ("<<<M2678>>>" ++ check (runes_of_ascii " ")).
+Eval vm_compute in ("<<<M2626>>>" ++ check (runes_of_ascii "packet { }")).
+Eval vm_compute in ("<<<M2433>>>" ++ check (runes_of_ascii "zchar [")).
+Eval vm_compute in ("<<<M2775>>>" ++ check (runes_of_ascii ";>/7""#")).
+Eval vm_compute in ("<<<M3060>>>" ++ check (runes_of_ascii "// c ")).
+Eval vm_compute in ("<<<M2507>>>" ++ check (runes_of_ascii """a\""")).
+Eval vm_compute in ("<<<M2526>>>" ++ check (runes_of_ascii "1 2")).
+Eval vm_compute in ("<<<M2534>>>" ++ check (runes_of_ascii "_1")).
